@@ -361,3 +361,1343 @@ Proof.
   intros WX. rewrite smm_dense by (auto using swf_sdiag_pinv). rewrite dense_sdiag_pinv.
   symmetry. apply (row_scale_diag (length w)); [apply map_length | exact WX].
 Qed.
+(* ------------------------------------------------------------------------------------------- *)
+(** * SparseLR *)
+Definition lrsum (r c : nat) (lr : list (vec * vec)) : mat :=
+  fold_right (fun xy D => madd D (outer (fst xy) (snd xy))) (mzero r c) lr.
+Definition slr_wfv (v : slr) : Prop := swf (sl_sp v) /\ lr_ok (s_nrow (sl_sp v)) (s_ncol (sl_sp v)) (sl_lr v).
+
+Lemma outer_wf' r c x y : length x = r -> length y = c -> wf_mat r c (outer x y).
+Proof. intros <- <-. apply outer_wf. Qed.
+Lemma lrsum_wf r c lr : lr_ok r c lr -> wf_mat r c (lrsum r c lr).
+Proof.
+  induction 1 as [|xy lr [Hx Hy] _ IH]; simpl; [apply mzero_wf|]. apply madd_wf; [exact IH | apply outer_wf'; assumption].
+Qed.
+Lemma madd_mzero_r r c A : wf_mat r c A -> madd A (mzero r c) =m A.
+Proof.
+  intros WA. apply (meq_mget r c); auto; [apply madd_wf; auto; apply mzero_wf|].
+  intros i j Hi Hj. rewrite (mget_madd r c) by (auto; apply mzero_wf). rewrite mget_mzero. ring.
+Qed.
+Lemma madd_mzero_l r c A : wf_mat r c A -> madd (mzero r c) A =m A.
+Proof. intros WA. rewrite madd_comm. apply madd_mzero_r; exact WA. Qed.
+
+Lemma fold_left_lr r c lr D0 : wf_mat r c D0 -> lr_ok r c lr ->
+  fold_left (fun D xy => madd D (outer (fst xy) (snd xy))) lr D0 =m madd D0 (lrsum r c lr).
+Proof.
+  intros W0 H. revert D0 W0. induction H as [|xy lr [Hx Hy] Hlr IH]; intros D0 W0; simpl.
+  - symmetry. apply madd_mzero_r; exact W0.
+  - rewrite IH by (apply madd_wf; [exact W0 | apply outer_wf'; assumption]).
+    rewrite madd_assoc. apply madd_proper; [reflexivity|]. apply madd_comm.
+Qed.
+Lemma fold_right_lr r c lr D0 : wf_mat r c D0 -> lr_ok r c lr ->
+  fold_right (fun xy D => madd D (outer (fst xy) (snd xy))) D0 lr =m madd D0 (lrsum r c lr).
+Proof.
+  intros W0 H. induction H as [|xy lr [Hx Hy] Hlr IH]; simpl.
+  - symmetry. apply madd_mzero_r; exact W0.
+  - rewrite IH. apply madd_assoc.
+Qed.
+Lemma slr_dense_split v : slr_wfv v ->
+  slr_dense v =m madd (dense (sl_sp v)) (lrsum (s_nrow (sl_sp v)) (s_ncol (sl_sp v)) (sl_lr v)).
+Proof. intros [W H]. unfold slr_dense. apply fold_left_lr; [apply dense_wf | exact H]. Qed.
+Lemma slr_dense_wf v : slr_wfv v -> wf_mat (s_nrow (sl_sp v)) (s_ncol (sl_sp v)) (slr_dense v).
+Proof.
+  intros Hv. eapply wf_mat_meq; [symmetry; apply slr_dense_split; exact Hv|].
+  destruct Hv as [W H]. apply madd_wf; [apply dense_wf | apply lrsum_wf; exact H].
+Qed.
+
+(** _matvec, 1-D *)
+Theorem slr_matvec_denotes v x : slr_wfv v -> length x = s_ncol (sl_sp v) ->
+  slr_matvec v x =v mat_vec (slr_dense v) x.
+Proof.
+  intros [W H] Hx. unfold slr_matvec, slr_dense.
+  assert (G : forall acc D, wf_mat (s_nrow (sl_sp v)) (s_ncol (sl_sp v)) D -> length acc = s_nrow (sl_sp v) ->
+            acc =v mat_vec D x ->
+            fold_left (fun prod xy => vadd prod (vscale (dot x (snd xy)) (fst xy))) (sl_lr v) acc
+            =v mat_vec (fold_left (fun D xy => madd D (outer (fst xy) (snd xy))) (sl_lr v) D) x).
+  { induction H as [|xy lr [Hxx Hy] Hlr IH]; intros acc D WD Hacc E; simpl; [exact E|].
+    apply IH.
+    - apply madd_wf; [exact WD | apply outer_wf'; assumption].
+    - vlen.
+    - rewrite (mat_vec_madd _ _ _ _ x WD (outer_wf' _ _ _ _ Hxx Hy)). rewrite mat_vec_outer, E.
+      rewrite (dot_comm x). reflexivity. }
+  apply G; [apply dense_wf | vlen | apply smv_dense; assumption].
+Qed.
+Lemma slr_matvec_length v x : slr_wfv v -> length (slr_matvec v x) = s_nrow (sl_sp v).
+Proof.
+  intros [W H]. unfold slr_matvec.
+  assert (G : forall acc, length acc = s_nrow (sl_sp v) ->
+            length (fold_left (fun prod xy => vadd prod (vscale (dot x (snd xy)) (fst xy))) (sl_lr v) acc) = s_nrow (sl_sp v)).
+  { induction H as [|xy lr [Hxx Hy] Hlr IH]; intros acc Hacc; simpl; [exact Hacc|]. apply IH. vlen. }
+  apply G. vlen.
+Qed.
+
+(** _matvec, 2-D *)
+Theorem slr_matmat_denotes k v X : slr_wfv v -> wf_mat (s_ncol (sl_sp v)) k X ->
+  slr_matmat k v X =m mat_mul k (slr_dense v) X.
+Proof.
+  intros [W H] WX. unfold slr_matmat, slr_dense.
+  assert (G : forall acc D, wf_mat (s_nrow (sl_sp v)) (s_ncol (sl_sp v)) D -> wf_mat (s_nrow (sl_sp v)) k acc ->
+            acc =m mat_mul k D X ->
+            fold_left (fun prod xy => madd prod (outer (fst xy) (mat_vec (transpose_n k X) (snd xy)))) (sl_lr v) acc
+            =m mat_mul k (fold_left (fun D xy => madd D (outer (fst xy) (snd xy))) (sl_lr v) D) X).
+  { induction H as [|xy lr [Hxx Hy] Hlr IH]; intros acc D WD Wacc E; simpl; [exact E|].
+    apply IH.
+    - apply madd_wf; [exact WD | apply outer_wf'; assumption].
+    - apply madd_wf; [exact Wacc|]. apply outer_wf'; [exact Hxx|]. rewrite mat_vec_length. unfold transpose_n. vlen.
+    - rewrite (mat_mul_madd_l _ _ _ _ _ X WD (outer_wf' _ _ _ _ Hxx Hy) WX).
+      rewrite (mat_mul_outer_l (s_ncol (sl_sp v)) k) by assumption.
+      rewrite (vec_mat_transpose _ _ X (snd xy) WX). rewrite E. reflexivity. }
+  apply G; [apply dense_wf | apply smm_wf; assumption | apply smm_dense; assumption].
+Qed.
+
+(** lrsum under the list operations the methods perform *)
+Lemma lrsum_app r c l1 l2 : lr_ok r c l1 -> lr_ok r c l2 -> lrsum r c (l1 ++ l2) =m madd (lrsum r c l1) (lrsum r c l2).
+Proof.
+  intros H1 H2. induction H1 as [|xy l1 [Hx Hy] Hl1 IH]; simpl.
+  - symmetry. apply madd_mzero_l. apply lrsum_wf; exact H2.
+  - rewrite IH. rewrite !madd_assoc. apply madd_proper; [reflexivity|]. apply madd_comm.
+Qed.
+Lemma lr_ok_app r c l1 l2 : lr_ok r c l1 -> lr_ok r c l2 -> lr_ok r c (l1 ++ l2).
+Proof. intros; apply Forall_app; split; assumption. Qed.
+Lemma lr_ok_map r c r' c' (f : vec * vec -> vec * vec) lr :
+  (forall xy, length (fst xy) = r -> length (snd xy) = c -> length (fst (f xy)) = r' /\ length (snd (f xy)) = c') ->
+  lr_ok r c lr -> lr_ok r' c' (map f lr).
+Proof. intros Hf H. induction H as [|xy lr [Hx Hy] Hlr IH]; simpl; constructor; auto. Qed.
+
+Lemma mneg_mzero r c : mneg (mzero r c) =m mzero r c.
+Proof.
+  apply (meq_mget r c); [apply mneg_wf, mzero_wf | apply mzero_wf|].
+  intros i j Hi Hj. rewrite (mget_mneg r c) by (auto; apply mzero_wf). rewrite mget_mzero. ring.
+Qed.
+Lemma mscale_mzero q r c : mscale q (mzero r c) =m mzero r c.
+Proof.
+  apply (meq_mget r c); [apply mscale_wf, mzero_wf | apply mzero_wf|].
+  intros i j Hi Hj. rewrite (mget_mscale r c) by (auto; apply mzero_wf). rewrite mget_mzero. ring.
+Qed.
+Lemma mneg_madd A B : mneg (madd A B) =m madd (mneg A) (mneg B).
+Proof. rewrite !mneg_mscale. apply mscale_madd. Qed.
+Lemma transpose_mzero r c : transpose_n c (mzero r c) =m mzero c r.
+Proof.
+  pose proof (mzero_wf r c) as W. apply (meq_mget c r); [apply transpose_n_wf, (wf_mat_length _ _ _ W) | apply mzero_wf|].
+  intros j i Hj Hi. rewrite mget_transpose_n by (rewrite ?(wf_mat_length _ _ _ W); auto). rewrite !mget_mzero. reflexivity.
+Qed.
+Lemma mat_mul_mzero_l q p r B : wf_mat q p B -> mat_mul p (mzero r q) B =m mzero r p.
+Proof.
+  intros WB. unfold mat_mul, mzero. induction r as [|r IH]; simpl; constructor; auto.
+  apply vec_mat_vzero_l. apply (wf_mat_rows _ _ _ WB).
+Qed.
+Lemma mat_mul_mzero_r r q p A : wf_mat r q A -> mat_mul p A (mzero q p) =m mzero r p.
+Proof.
+  intros WA. pose proof (mzero_wf q p) as WZ.
+  apply (meq_mget r p); [eapply mat_mul_wf; eauto | apply mzero_wf|].
+  intros i j Hi Hj. rewrite (mget_mat_mul r q p) by auto. rewrite mget_mzero.
+  assert (E : col j (mzero q p) =v vzero q).
+  { apply veq_nth; [vlen; unfold mzero; vlen|]. intros k Hk. rewrite col_length in Hk. unfold mzero in Hk. rewrite repeat_length in Hk.
+    rewrite nthq_col by (unfold mzero; vlen). rewrite mget_mzero, nthq_vzero. reflexivity. }
+  rewrite E. apply dot_vzero_r.
+Qed.
+Lemma mat_mul_madd_r r q p A B B' : wf_mat r q A -> wf_mat q p B -> wf_mat q p B' ->
+  mat_mul p A (madd B B') =m madd (mat_mul p A B) (mat_mul p A B').
+Proof.
+  intros WA WB WB'. pose proof (madd_wf _ _ _ _ WB WB') as WS.
+  apply (meq_mget r p); [eapply mat_mul_wf; eauto | apply madd_wf; eapply mat_mul_wf; eauto|].
+  intros i j Hi Hj. rewrite (mget_madd r p) by (auto; eapply mat_mul_wf; eauto).
+  rewrite !(mget_mat_mul r q p) by auto.
+  assert (E : col j (madd B B') =v vadd (col j B) (col j B')).
+  { apply veq_nth; [vlen; rewrite (wf_mat_length _ _ _ WS), (wf_mat_length _ _ _ WB), (wf_mat_length _ _ _ WB'); lia|].
+    intros k Hk. rewrite col_length, (wf_mat_length _ _ _ WS) in Hk.
+    rewrite nthq_vadd by (rewrite col_length, ?(wf_mat_length _ _ _ WB), ?(wf_mat_length _ _ _ WB'); lia).
+    rewrite !nthq_col by (rewrite ?(wf_mat_length _ _ _ WS), ?(wf_mat_length _ _ _ WB), ?(wf_mat_length _ _ _ WB'); lia).
+    rewrite (mget_madd q p) by auto. reflexivity. }
+  rewrite E. apply dot_vadd_r. rewrite !col_length, (wf_mat_length _ _ _ WB), (wf_mat_length _ _ _ WB'). reflexivity.
+Qed.
+Lemma mat_mul_outer_r r q p A x y : wf_mat r q A -> length x = q -> length y = p ->
+  mat_mul p A (outer x y) =m outer (mat_vec A x) y.
+Proof.
+  intros WA Hx Hy. pose proof (outer_wf' q p x y Hx Hy) as WO.
+  apply (meq_mget r p); [eapply mat_mul_wf; eauto | apply outer_wf'; [rewrite mat_vec_length; apply (wf_mat_length _ _ _ WA) | exact Hy]|].
+  intros i j Hi Hj. rewrite (mget_mat_mul r q p) by auto.
+  rewrite mget_outer by (rewrite ?mat_vec_length, ?(wf_mat_length _ _ _ WA); lia).
+  rewrite nthq_mat_vec by (rewrite (wf_mat_length _ _ _ WA); exact Hi).
+  assert (E : col j (outer x y) =v vscale (nthq y j) x).
+  { apply veq_nth; [rewrite col_length, vscale_length; unfold outer; vlen|]. intros k Hk.
+    rewrite col_length in Hk. unfold outer in Hk. rewrite map_length in Hk.
+    rewrite nthq_col by (unfold outer; vlen). rewrite mget_outer by lia. rewrite nthq_vscale by lia. ring. }
+  rewrite E, dot_vscale_r. ring.
+Qed.
+
+Lemma lrsum_map_neg r c lr : lr_ok r c lr -> lrsum r c (map (fun xy => (vneg (fst xy), snd xy)) lr) =m mneg (lrsum r c lr).
+Proof.
+  induction 1 as [|xy lr [Hx Hy] Hlr IH]; simpl; [symmetry; apply mneg_mzero|].
+  rewrite IH, mneg_madd, mneg_outer. reflexivity.
+Qed.
+Lemma lrsum_map_scale q r c lr : lr_ok r c lr -> lrsum r c (map (fun xy => (vscale q (fst xy), snd xy)) lr) =m mscale q (lrsum r c lr).
+Proof.
+  induction 1 as [|xy lr [Hx Hy] Hlr IH]; simpl; [symmetry; apply mscale_mzero|].
+  rewrite IH, mscale_madd, mscale_outer. reflexivity.
+Qed.
+Lemma lrsum_map_swap r c lr : lr_ok r c lr -> lrsum c r (map (fun xy => (snd xy, fst xy)) lr) =m transpose_n c (lrsum r c lr).
+Proof.
+  induction 1 as [|xy lr [Hx Hy] Hlr IH]; simpl; [symmetry; apply transpose_mzero|].
+  rewrite (transpose_madd r c) by (auto using lrsum_wf, outer_wf').
+  rewrite IH. apply madd_proper; [reflexivity|]. rewrite <- Hy. symmetry. apply transpose_outer.
+Qed.
+Lemma lrsum_map_left M c lr : swf M -> lr_ok (s_ncol M) c lr ->
+  lrsum (s_nrow M) c (map (fun xy => (smv M (fst xy), snd xy)) lr) =m mat_mul c (dense M) (lrsum (s_ncol M) c lr).
+Proof.
+  intros WM. induction 1 as [|xy lr [Hx Hy] Hlr IH]; simpl.
+  - symmetry. apply (mat_mul_mzero_r (s_nrow M)). apply dense_wf.
+  - rewrite (mat_mul_madd_r (s_nrow M) (s_ncol M) c) by (auto using dense_wf, lrsum_wf, outer_wf').
+    rewrite IH. apply madd_proper; [reflexivity|].
+    rewrite (mat_mul_outer_r (s_nrow M) (s_ncol M) c) by (auto using dense_wf).
+    rewrite smv_dense by assumption. reflexivity.
+Qed.
+Lemma lrsum_map_right M r lr : swf M -> lr_ok r (s_nrow M) lr ->
+  lrsum r (s_ncol M) (map (fun xy => (fst xy, smv (stranspose M) (snd xy))) lr) =m mat_mul (s_ncol M) (lrsum r (s_nrow M) lr) (dense M).
+Proof.
+  intros WM. induction 1 as [|xy lr [Hx Hy] Hlr IH]; simpl.
+  - symmetry. apply (mat_mul_mzero_l (s_nrow M)). apply dense_wf.
+  - rewrite (mat_mul_madd_l r (s_nrow M) (s_ncol M)) by (auto using dense_wf, lrsum_wf, outer_wf').
+    rewrite IH. apply madd_proper; [reflexivity|].
+    rewrite (mat_mul_outer_l (s_nrow M) (s_ncol M)) by (auto using dense_wf).
+    rewrite smv_dense by (auto using swf_stranspose; rewrite stranspose_ncol; exact Hy).
+    rewrite dense_stranspose. rewrite <- (vec_mat_transpose (s_nrow M) (s_ncol M)) by apply dense_wf. reflexivity.
+Qed.
+(** ** the algebraic operations of SparseLR, one lemma each *)
+Definition slr_is (v : slr) (r c : nat) (D : mat) : Prop :=
+  slr_wfv v /\ s_nrow (sl_sp v) = r /\ s_ncol (sl_sp v) = c /\ slr_dense v =m D.
+
+Lemma slr_is_wf v r c D : slr_is v r c D -> wf_mat r c D.
+Proof. intros (Hv & <- & <- & E). eapply wf_mat_meq; [exact E | apply slr_dense_wf; exact Hv]. Qed.
+Lemma slr_is_intro v r c D : swf (sl_sp v) -> s_nrow (sl_sp v) = r -> s_ncol (sl_sp v) = c -> lr_ok r c (sl_lr v) ->
+  madd (dense (sl_sp v)) (lrsum r c (sl_lr v)) =m D -> slr_is v r c D.
+Proof.
+  intros W Hr Hc H E. subst r c. assert (Hv : slr_wfv v) by (split; assumption).
+  repeat split; auto. rewrite slr_dense_split by exact Hv. exact E.
+Qed.
+Lemma slr_is_split v r c D : slr_is v r c D -> madd (dense (sl_sp v)) (lrsum r c (sl_lr v)) =m D.
+Proof. intros (Hv & <- & <- & E). rewrite <- slr_dense_split by exact Hv. exact E. Qed.
+Lemma slr_is_meq v r c D D' : D =m D' -> slr_is v r c D -> slr_is v r c D'.
+Proof. intros E (Hv & Hr & Hc & E'). repeat split; auto; try apply Hv. rewrite E'. exact E. Qed.
+
+Lemma madd_shuffle A B C : madd (madd A B) C =m madd (madd A C) B.
+Proof. rewrite !madd_assoc. apply madd_proper; [reflexivity | apply madd_comm]. Qed.
+Lemma madd_4 A B C D : madd (madd A B) (madd C D) =m madd (madd A C) (madd B D).
+Proof. rewrite !madd_assoc. apply madd_proper; [reflexivity|]. rewrite <- !madd_assoc. apply madd_proper; [apply madd_comm | reflexivity]. Qed.
+
+Theorem slr_neg_is v r c D : slr_is v r c D -> slr_is (slr_neg v) r c (mneg D).
+Proof.
+  intros H. pose proof (slr_is_split _ _ _ _ H) as E. destruct H as ([W Hlr] & Hr & Hc & _). subst r c.
+  apply slr_is_intro; simpl.
+  - apply swf_smap; exact W.
+  - apply smap_nrow.
+  - reflexivity.
+  - eapply lr_ok_map; [|exact Hlr]. intros xy Hx Hy; simpl. rewrite vneg_length. auto.
+  - rewrite dense_sneg, lrsum_map_neg by exact Hlr. rewrite <- mneg_madd, E. reflexivity.
+Qed.
+Theorem slr_mul_is q v r c D : slr_is v r c D -> slr_is (slr_mul q v) r c (mscale q D).
+Proof.
+  intros H. pose proof (slr_is_split _ _ _ _ H) as E. destruct H as ([W Hlr] & Hr & Hc & _). subst r c.
+  apply slr_is_intro; simpl.
+  - apply swf_smap; exact W.
+  - apply smap_nrow.
+  - reflexivity.
+  - eapply lr_ok_map; [|exact Hlr]. intros xy Hx Hy; simpl. rewrite vscale_length. auto.
+  - rewrite dense_sscale, lrsum_map_scale by exact Hlr. rewrite <- mscale_madd, E. reflexivity.
+Qed.
+Theorem slr_add_csr_is v s r c D : slr_is v r c D -> swf s -> s_nrow s = r -> s_ncol s = c ->
+  slr_is (slr_add_csr v s) r c (madd D (dense s)).
+Proof.
+  intros H Ws Hsr Hsc. pose proof (slr_is_split _ _ _ _ H) as E. destruct H as ([W Hlr] & Hr & Hc & _).
+  apply slr_is_intro; simpl.
+  - apply swf_sadd; auto; lia.
+  - rewrite sadd_nrow; lia.
+  - exact Hc.
+  - subst r c; exact Hlr.
+  - rewrite dense_sadd by lia. rewrite madd_shuffle, E. reflexivity.
+Qed.
+Theorem slr_add_is v w r c D D' : slr_is v r c D -> slr_is w r c D' -> slr_is (slr_add v w) r c (madd D D').
+Proof.
+  intros H H'. pose proof (slr_is_split _ _ _ _ H) as E. pose proof (slr_is_split _ _ _ _ H') as E'.
+  destruct H as ([W Hlr] & Hr & Hc & _). destruct H' as ([W' Hlr'] & Hr' & Hc' & _).
+  apply slr_is_intro; simpl.
+  - apply swf_sadd; auto; lia.
+  - rewrite sadd_nrow; lia.
+  - exact Hc.
+  - apply lr_ok_app; [subst r c; exact Hlr | rewrite <- Hr', <- Hc'; exact Hlr'].
+  - rewrite dense_sadd by lia.
+    rewrite lrsum_app by (subst r c; auto; rewrite <- Hr', <- Hc'; auto).
+    rewrite madd_4, E, E'. reflexivity.
+Qed.
+Theorem slr_sub_is v w r c D D' : slr_is v r c D -> slr_is w r c D' -> slr_is (slr_sub v w) r c (msub D D').
+Proof.
+  intros H H'. unfold slr_sub. eapply slr_is_meq; [symmetry; apply msub_madd_mneg|].
+  apply slr_add_is; [exact H | apply slr_neg_is; exact H'].
+Qed.
+Theorem slr_sub_csr_is v s r c D : slr_is v r c D -> swf s -> s_nrow s = r -> s_ncol s = c ->
+  slr_is (slr_sub_csr v s) r c (msub D (dense s)).
+Proof.
+  intros H Ws Hsr Hsc. unfold slr_sub_csr. eapply slr_is_meq; [symmetry; apply msub_madd_mneg|].
+  eapply slr_is_meq; [apply madd_proper; [reflexivity | apply dense_sneg]|].
+  apply slr_add_csr_is; auto; [apply swf_smap; exact Ws | unfold sneg; rewrite smap_nrow; exact Hsr].
+Qed.
+Theorem slr_left_is M v r c D : slr_is v r c D -> swf M -> s_ncol M = r ->
+  slr_is (slr_left M v) (s_nrow M) c (mat_mul c (dense M) D).
+Proof.
+  intros H WM HM. pose proof (slr_is_split _ _ _ _ H) as E. destruct H as ([W Hlr] & Hr & Hc & _). subst r c.
+  apply slr_is_intro; simpl.
+  - apply swf_smul; exact W.
+  - apply smul_nrow.
+  - reflexivity.
+  - eapply lr_ok_map; [|exact Hlr]. intros xy Hx Hy; simpl. rewrite smv_length. auto.
+  - rewrite dense_smul by auto. rewrite <- HM in Hlr. rewrite lrsum_map_left by assumption.
+    rewrite <- (mat_mul_madd_r (s_nrow M) (s_ncol M)) by (auto using dense_wf, lrsum_wf; rewrite HM; apply dense_wf).
+    rewrite HM, E. reflexivity.
+Qed.
+Theorem slr_right_is v M r c D : slr_is v r c D -> swf M -> s_nrow M = c ->
+  slr_is (slr_right v M) r (s_ncol M) (mat_mul (s_ncol M) D (dense M)).
+Proof.
+  intros H WM HM. pose proof (slr_is_split _ _ _ _ H) as E. destruct H as ([W Hlr] & Hr & Hc & _). subst r c.
+  apply slr_is_intro; simpl.
+  - apply swf_smul; exact WM.
+  - apply smul_nrow.
+  - reflexivity.
+  - eapply lr_ok_map; [|exact Hlr]. intros xy Hx Hy; simpl. rewrite smv_length, stranspose_nrow. auto.
+  - rewrite dense_smul by auto. rewrite <- HM in Hlr. rewrite lrsum_map_right by assumption.
+    rewrite <- (mat_mul_madd_l (s_nrow (sl_sp v)) (s_nrow M) (s_ncol M)) by (auto using dense_wf, lrsum_wf; rewrite HM; apply dense_wf).
+    rewrite HM, E. reflexivity.
+Qed.
+Theorem slr_transpose_is v r c D : slr_is v r c D -> slr_is (slr_transpose v) c r (transpose_n c D).
+Proof.
+  intros H. pose proof (slr_is_split _ _ _ _ H) as E. destruct H as ([W Hlr] & Hr & Hc & _). subst r c.
+  apply slr_is_intro; simpl.
+  - apply swf_stranspose.
+  - apply stranspose_nrow.
+  - reflexivity.
+  - eapply lr_ok_map; [|exact Hlr]. intros xy Hx Hy; simpl. auto.
+  - rewrite dense_stranspose, lrsum_map_swap by exact Hlr.
+    rewrite <- (transpose_madd (s_nrow (sl_sp v)) (s_ncol (sl_sp v))) by (auto using dense_wf, lrsum_wf).
+    rewrite E. reflexivity.
+Qed.
+Theorem slr_astype_is v r c D : slr_is v r c D -> slr_is (slr_astype v) r c D.
+Proof. intros H; exact H. Qed.
+
+(** sums *)
+Theorem slr_sum1_denotes v r c D : slr_is v r c D -> slr_sum1 v =v row_sums D.
+Proof.
+  intros H. pose proof (slr_is_wf _ _ _ _ H) as WD. destruct H as (Hv & Hr & Hc & E). unfold slr_sum1, slr_shape; simpl.
+  rewrite slr_matvec_denotes by (auto; vlen). rewrite E, Hc. apply (mat_vec_vones r c); exact WD.
+Qed.
+Theorem slr_sum0_denotes v r c D : slr_is v r c D -> slr_sum0 v =v col_sums c D.
+Proof.
+  intros H. pose proof (slr_transpose_is _ _ _ _ H) as Ht. pose proof (slr_is_wf _ _ _ _ H) as WD.
+  destruct H as (Hv & Hr & Hc & E). destruct Ht as (Hvt & Hrt & Hct & Et). unfold slr_sum0, slr_shape; simpl fst.
+  rewrite slr_matvec_denotes by (auto; rewrite Hct; vlen). rewrite Et, Hr.
+  rewrite <- (wf_mat_length _ _ _ WD). apply mat_vec_transpose_vones.
+Qed.
+Theorem slr_sum_denotes v r c D : slr_is v r c D -> slr_sum v == total D.
+Proof. intros H. unfold slr_sum, total. rewrite (slr_sum1_denotes _ _ _ _ H). reflexivity. Qed.
+
+Theorem slr_normalize_is v r c D : slr_is v r c D -> slr_is (slr_normalize v) r c (row_scale (map pinv (row_sums D)) D).
+Proof.
+  intros H. pose proof (slr_is_wf _ _ _ _ H) as WD. pose proof (slr_sum1_denotes _ _ _ _ H) as ES.
+  assert (HL : length (slr_sum1 v) = r).
+  { rewrite (veq_length _ _ ES). rewrite row_sums_length. apply (wf_mat_length _ _ _ WD). }
+  unfold slr_normalize.
+  pose proof (slr_left_is (sdiag_pinv (slr_sum1 v)) v r c D H (swf_sdiag_pinv _)) as HLft.
+  rewrite sdiag_pinv_ncol, sdiag_pinv_nrow, HL in HLft. specialize (HLft eq_refl).
+  eapply slr_is_meq; [|exact HLft].
+  rewrite dense_sdiag_pinv. rewrite <- (row_scale_diag r c) by (auto; rewrite map_length; exact HL).
+  apply row_scale_proper; [|reflexivity]. apply map_pinv_proper. exact ES.
+Qed.
+Theorem slr_d2u_is v n D : slr_is v n n D -> slr_is (slr_d2u v) n n (madd D (transpose_n n D)).
+Proof.
+  intros H. pose proof (slr_is_split _ _ _ _ H) as E. pose proof (slr_is_split _ _ _ _ (slr_transpose_is _ _ _ _ H)) as Et.
+  simpl in Et. destruct H as ([W Hlr] & Hr & Hc & _).
+  apply slr_is_intro; simpl.
+  - apply swf_sadd; auto using swf_stranspose. rewrite stranspose_ncol. lia.
+  - rewrite sadd_nrow; [exact Hr | rewrite stranspose_nrow; lia].
+  - exact Hc.
+  - apply lr_ok_app; [rewrite <- Hr at 1; rewrite <- Hc; exact Hlr|].
+    eapply lr_ok_map; [|exact Hlr]. intros xy Hx Hy; simpl. split; lia.
+  - rewrite dense_sadd by (rewrite stranspose_ncol; lia).
+    assert (Hlr' : lr_ok n n (sl_lr v)) by (rewrite <- Hr at 1; rewrite <- Hc; exact Hlr).
+    rewrite lrsum_app; [| exact Hlr' | eapply lr_ok_map; [|exact Hlr']; intros xy Hx Hy; simpl; auto].
+    rewrite madd_4, E, Et. reflexivity.
+Qed.
+
+Lemma mget_regularized a alpha i j : (i < s_nrow a)%nat -> (j < s_ncol a)%nat ->
+  mget (regularized_dense a alpha) i j == mget (dense a) i j + alpha / qnat (s_ncol a).
+Proof.
+  intros Hi Hj. unfold regularized_dense. rewrite (mget_madd (s_nrow a) (s_ncol a)) by (auto using dense_wf, mconst_wf).
+  rewrite mget_mconst by assumption. reflexivity.
+Qed.
+Lemma regularized_wf a alpha : wf_mat (s_nrow a) (s_ncol a) (regularized_dense a alpha).
+Proof. apply madd_wf; [apply dense_wf | apply mconst_wf]. Qed.
+Theorem regularizer_is s alpha : swf s -> slr_is (regularizer s alpha) (s_nrow s) (s_ncol s) (regularized_dense s alpha).
+Proof.
+  intros W. apply slr_is_intro; simpl; auto.
+  - constructor; [|constructor]. simpl. split; vlen.
+  - rewrite madd_mzero_l by (apply outer_wf'; vlen). unfold regularized_dense. apply madd_proper; [reflexivity|].
+    apply (meq_mget (s_nrow s) (s_ncol s)); [apply outer_wf'; vlen | apply mconst_wf|].
+    intros i j Hi Hj. rewrite mget_outer by vlen. rewrite nthq_vscale by vlen. rewrite nthq_vones by exact Hi.
+    rewrite nthq_map by vlen. rewrite nthq_vones by exact Hj. rewrite mget_mconst by assumption. unfold Qdiv. ring.
+Qed.
+
+(** ** every SparseLR expression denotes its dense matrix *)
+Theorem se_denotes e : se_wf e -> slr_is (slr_eval e) (fst (se_shape e)) (snd (se_shape e)) (se_dense e).
+Proof.
+  induction e as [s lr | s alpha | e IH | e1 IH1 e2 IH2 | e IH s | e1 IH1 e2 IH2 | e IH s | q e IH | M e IH | e IH M
+                 | e IH | e IH | e IH | e IH]; simpl; intros H.
+  - destruct H as [W Hlr]. apply slr_is_intro; simpl; auto. symmetry. apply (fold_right_lr (s_nrow s) (s_ncol s)); [apply dense_wf | exact Hlr].
+  - destruct H as [W _]. apply regularizer_is; exact W.
+  - apply slr_neg_is; auto.
+  - destruct H as (H1 & H2 & E). apply slr_add_is; auto. rewrite E. auto.
+  - destruct H as (H1 & W & E). rewrite E; simpl. apply slr_add_csr_is; auto. specialize (IH H1). rewrite E in IH. exact IH.
+  - destruct H as (H1 & H2 & E). apply slr_sub_is; auto. rewrite E. auto.
+  - destruct H as (H1 & W & E). rewrite E; simpl. apply slr_sub_csr_is; auto. specialize (IH H1). rewrite E in IH. exact IH.
+  - apply slr_mul_is; auto.
+  - destruct H as (H1 & W & E). apply (slr_left_is M _ (fst (se_shape e))); auto.
+  - destruct H as (H1 & W & E). apply (slr_right_is _ M (fst (se_shape e)) (snd (se_shape e))); auto.
+  - apply slr_transpose_is; auto.
+  - apply slr_astype_is; auto.
+  - apply slr_normalize_is; auto.
+  - destruct H as (H1 & E). specialize (IH H1). rewrite E in *. apply slr_d2u_is; exact IH.
+Qed.
+(** operator.dot(x) on a SparseLR expression: the shape checks pass and the result is dense . x *)
+Lemma lo_dot_ok shape f x : length x = snd shape -> length (f x) = fst shape -> lo_dot shape f x = Ok (f x).
+Proof. intros H1 H2. unfold lo_dot. rewrite H1, Nat.eqb_refl; simpl. rewrite H2, Nat.eqb_refl. reflexivity. Qed.
+
+Theorem sparselr_dot_denotes e x : se_wf e -> length x = snd (se_shape e) ->
+  exists y, lo_dot (slr_shape (slr_eval e)) (slr_matvec (slr_eval e)) x = Ok y /\ y =v mat_vec (se_dense e) x.
+Proof.
+  intros H Hx. destruct (se_denotes e H) as (Hv & Hr & Hc & E).
+  exists (slr_matvec (slr_eval e) x). split.
+  - apply lo_dot_ok; unfold slr_shape; simpl; [lia | apply slr_matvec_length; exact Hv].
+  - rewrite slr_matvec_denotes by (auto; lia). rewrite E. reflexivity.
+Qed.
+Theorem sparselr_matmat_denotes k e X : se_wf e -> wf_mat (snd (se_shape e)) k X ->
+  slr_matmat k (slr_eval e) X =m mat_mul k (se_dense e) X.
+Proof.
+  intros H WX. destruct (se_denotes e H) as (Hv & Hr & Hc & E).
+  rewrite slr_matmat_denotes by (auto; rewrite Hc; exact WX). rewrite E. reflexivity.
+Qed.
+
+(* ------------------------------------------------------------------------------------------- *)
+(** * Normalizer *)
+Lemma sumq_vones n : sumq (vones n) == qnat n.
+Proof.
+  induction n as [|n IH]; [reflexivity|]. change (vones (S n)) with (1 :: vones n). simpl sumq. rewrite IH.
+  unfold qnat. rewrite Nat2Z.inj_succ. unfold Z.succ. rewrite inject_Z_plus. ring.
+Qed.
+Lemma vmean_def x c : length x = c -> vmean x == sumq x / qnat c.
+Proof. intros <-. reflexivity. Qed.
+
+Lemma mat_vec_regularized a reg x : length x = s_ncol a ->
+  mat_vec (regularized_dense a reg) x =v vadd (mat_vec (dense a) x) (vconst (s_nrow a) (reg / qnat (s_ncol a) * sumq x)).
+Proof.
+  intros Hx. unfold regularized_dense.
+  rewrite (mat_vec_madd (s_nrow a) (s_ncol a)) by (auto using dense_wf, mconst_wf).
+  rewrite mat_vec_mconst by exact Hx. reflexivity.
+Qed.
+Lemma row_sums_regularized a reg : (0 < s_ncol a)%nat ->
+  row_sums (regularized_dense a reg) =v map (fun d => d + reg) (row_sums (dense a)).
+Proof.
+  intros Hc. rewrite <- (mat_vec_vones _ _ _ (regularized_wf a reg)).
+  rewrite mat_vec_regularized by vlen. rewrite (mat_vec_vones _ _ _ (dense_wf a)).
+  apply veq_nth; [vlen|]. intros i Hi. autorewrite with vlen in Hi.
+  rewrite nthq_vadd by vlen. rewrite nthq_vconst by lia. rewrite nthq_map by vlen.
+  rewrite sumq_vones. field. apply qnat_nonzero; exact Hc.
+Qed.
+Lemma mk_normalizer_weights a reg : swf a -> (0 < s_ncol a)%nat ->
+  map (fun d => d + reg) (smv a (vones (s_ncol a))) =v row_sums (regularized_dense a reg).
+Proof.
+  intros W Hc. rewrite row_sums_regularized by exact Hc.
+  apply map_veq; [intros p q E; rewrite E; reflexivity|].
+  rewrite smv_dense by (auto; vlen). apply (mat_vec_vones _ _ _ (dense_wf a)).
+Qed.
+Lemma Qle_antisym_0 reg : 0 <= reg -> reg <= 0 -> reg == 0.
+Proof. intros; apply Qle_antisym; assumption. Qed.
+
+Theorem normalizer_matvec_denotes a reg x : swf a -> (0 < s_ncol a)%nat -> 0 <= reg -> length x = s_ncol a ->
+  nz_matvec (mk_normalizer a reg) x =v mat_vec (normalizer_dense a reg) x.
+Proof.
+  intros W Hc Hreg Hx. unfold nz_matvec, mk_normalizer, normalizer_dense; simpl.
+  rewrite mat_vec_row_scale, mat_vec_regularized by exact Hx.
+  set (w' := map (fun d => d + reg) (smv a (vones (s_ncol a)))).
+  assert (Hw' : length w' = s_nrow a) by (unfold w'; vlen).
+  set (prod := if Qlt_b 0 reg then _ else _).
+  assert (Hprod : length prod = s_nrow a) by (unfold prod; destruct (Qlt_b 0 reg); vlen).
+  rewrite smv_sdiag_pinv by lia.
+  apply vmul_proper; [apply map_pinv_proper; apply mk_normalizer_weights; assumption|].
+  apply veq_nth; [vlen|]. intros i Hi. rewrite Hprod in Hi.
+  rewrite nthq_vadd by vlen. rewrite nthq_vconst by exact Hi.
+  assert (EA : nthq (smv a x) i == nthq (mat_vec (dense a) x) i) by (rewrite smv_dense by assumption; reflexivity).
+  unfold prod. destruct (Qlt_b 0 reg) eqn:Er.
+  - rewrite nthq_vadd by vlen. rewrite nthq_vscale by vlen. rewrite nthq_vones by exact Hi.
+    rewrite EA, (vmean_def x (s_ncol a) Hx). field. apply qnat_nonzero; exact Hc.
+  - apply Qlt_b_false in Er. pose proof (Qle_antisym_0 reg Hreg Er) as E0. rewrite EA, E0. field. apply qnat_nonzero; exact Hc.
+Qed.
+
+Lemma mat_mul_mconst_l r c k q X : wf_mat c k X ->
+  mat_mul k (mconst r c q) X =m outer (vones r) (vscale q (col_sums k X)).
+Proof.
+  intros WX. apply (meq_mget r k); [eapply mat_mul_wf; [apply mconst_wf | exact WX] | apply outer_wf'; vlen|].
+  intros i j Hi Hj. rewrite (mget_mat_mul r c k) by (auto using mconst_wf).
+  rewrite mget_outer by vlen. rewrite nthq_vones by exact Hi. rewrite nthq_vscale by vlen.
+  unfold col_sums. rewrite nthq_seq_map by exact Hj.
+  assert (E : nth i (mconst r c q) [] = vconst c q).
+  { unfold mconst. clear -Hi. revert i Hi; induction r as [|r IH]; intros [|i] Hi; simpl; try lia; auto. apply IH; lia. }
+  rewrite E. assert (HL : length (col j X) = c) by (rewrite col_length; apply (wf_mat_length _ _ _ WX)).
+  pose proof (dot_vconst_l (col j X) q) as D. rewrite HL in D. rewrite D. ring.
+Qed.
+Lemma mat_mul_regularized a reg k X : wf_mat (s_ncol a) k X ->
+  mat_mul k (regularized_dense a reg) X =m
+  madd (mat_mul k (dense a) X) (outer (vones (s_nrow a)) (vscale (reg / qnat (s_ncol a)) (col_sums k X))).
+Proof.
+  intros WX. unfold regularized_dense.
+  rewrite (mat_mul_madd_l (s_nrow a) (s_ncol a) k) by (auto using dense_wf, mconst_wf).
+  rewrite mat_mul_mconst_l by exact WX. reflexivity.
+Qed.
+Lemma col_means_length k X : length (col_means k X) = k.
+Proof. unfold col_means. vlen. Qed.
+Global Hint Rewrite col_means_length : vlen.
+
+Theorem normalizer_matmat_denotes k a reg X : swf a -> (0 < s_ncol a)%nat -> 0 <= reg -> wf_mat (s_ncol a) k X ->
+  nz_matmat k (mk_normalizer a reg) X =m mat_mul k (normalizer_dense a reg) X.
+Proof.
+  intros W Hc Hreg WX. unfold nz_matmat, mk_normalizer, normalizer_dense; simpl.
+  rewrite mat_mul_row_scale_l by (apply (wf_mat_rows _ _ _ WX)). rewrite mat_mul_regularized by exact WX.
+  set (w' := map (fun d => d + reg) (smv a (vones (s_ncol a)))).
+  assert (Hw' : length w' = s_nrow a) by (unfold w'; vlen).
+  set (prod := if Qlt_b 0 reg then _ else _).
+  assert (Wsmm : wf_mat (s_nrow a) k (smm k a X)) by (apply smm_wf; assumption).
+  assert (WOm : wf_mat (s_nrow a) k (outer (vones (s_nrow a)) (col_means k X))) by (apply outer_wf'; vlen).
+  assert (WOs : wf_mat (s_nrow a) k (outer (vones (s_nrow a)) (vscale (reg / qnat (s_ncol a)) (col_sums k X)))) by (apply outer_wf'; vlen).
+  assert (WAX : wf_mat (s_nrow a) k (mat_mul k (dense a) X)) by (eapply mat_mul_wf; [apply dense_wf | exact WX]).
+  assert (Wprod : wf_mat (s_nrow a) k prod).
+  { unfold prod. destruct (Qlt_b 0 reg); [|exact Wsmm]. apply madd_wf; [exact Wsmm|]. apply mscale_wf. exact WOm. }
+  rewrite smm_sdiag_pinv by (rewrite Hw'; exact Wprod).
+  apply row_scale_proper; [apply map_pinv_proper; apply mk_normalizer_weights; assumption|].
+  apply (meq_mget (s_nrow a) k); [exact Wprod | apply madd_wf; assumption |].
+  intros i j Hi Hj.
+  rewrite (mget_madd (s_nrow a) k) by assumption.
+  rewrite mget_outer by vlen. rewrite nthq_vones by exact Hi. rewrite nthq_vscale by vlen.
+  unfold col_sums. rewrite nthq_seq_map by exact Hj.
+  assert (EA : mget (smm k a X) i j == mget (mat_mul k (dense a) X) i j) by (rewrite smm_dense by assumption; reflexivity).
+  unfold prod. destruct (Qlt_b 0 reg) eqn:Er.
+  - rewrite (mget_madd (s_nrow a) k) by (auto using mscale_wf). rewrite (mget_mscale (s_nrow a) k) by assumption.
+    rewrite mget_outer by vlen. rewrite nthq_vones by exact Hi. unfold col_means. rewrite nthq_seq_map by exact Hj.
+    rewrite (vmean_def (col j X) (s_ncol a)) by (rewrite col_length; apply (wf_mat_length _ _ _ WX)).
+    rewrite EA. field. apply qnat_nonzero; exact Hc.
+  - apply Qlt_b_false in Er. pose proof (Qle_antisym_0 reg Hreg Er) as E0. rewrite EA, E0. field. apply qnat_nonzero; exact Hc.
+Qed.
+Lemma nz_matvec_length a reg x : length (nz_matvec (mk_normalizer a reg) x) = s_nrow a.
+Proof. unfold nz_matvec, mk_normalizer; simpl. rewrite smv_length, sdiag_pinv_nrow. vlen. Qed.
+
+Theorem normalizer_dot_denotes e x : ne_wf e -> ne_transposed e = false -> length x = snd (ne_shape e) ->
+  exists y, lo_dot (nz_shape (nz_eval e)) (nz_matvec (nz_eval e)) x = Ok y /\ y =v mat_vec (ne_dense e) x.
+Proof.
+  destruct e as [a reg | e]; simpl; [|discriminate]. intros (W & Hc & Hreg) _ Hx.
+  exists (nz_matvec (mk_normalizer a reg) x). split.
+  - apply lo_dot_ok; unfold nz_shape; simpl; [exact Hx | apply nz_matvec_length].
+  - apply normalizer_matvec_denotes; assumption.
+Qed.
+
+(** D8: Normalizer._transpose returns self *)
+Theorem normalizer_transpose_refuted :
+  exists a x, swf a /\ (0 < s_ncol a)%nat /\ length x = s_nrow a /\
+    ~ (nz_matvec (nz_transpose (mk_normalizer a 0)) x =v mat_vec (transpose_n (s_ncol a) (normalizer_dense a 0)) x).
+Proof.
+  exists {| s_ncol := 3; s_rows := [[(1%nat, 1); (2%nat, 1)]; [(0%nat, 1)]; [(0%nat, 1)]] |}, [1; 2; 3].
+  split; [|split; [|split]].
+  - repeat constructor.
+  - simpl; lia.
+  - reflexivity.
+  - intros H. apply (veq_nthq _ _ 0) in H. vm_compute in H. discriminate.
+Qed.
+
+(* ------------------------------------------------------------------------------------------- *)
+(** * Laplacian *)
+Lemma laplacian_sparse_wf a : swf a -> s_nrow a = s_ncol a ->
+  let w := smv a (vones (s_nrow a)) in
+  swf (sadd (sdiag w) (sneg a)) /\ s_nrow (sadd (sdiag w) (sneg a)) = s_nrow a /\ s_ncol (sadd (sdiag w) (sneg a)) = s_nrow a /\
+  dense (sadd (sdiag w) (sneg a)) =m msub (diag (row_sums (dense a))) (dense a).
+Proof.
+  intros W Hsq w. assert (Hw : length w = s_nrow a) by (unfold w; vlen).
+  assert (Ew : w =v row_sums (dense a)).
+  { unfold w. rewrite smv_dense by (auto; vlen). rewrite Hsq. apply (mat_vec_vones _ _ _ (dense_wf a)). }
+  split; [|split; [|split]].
+  - apply swf_sadd; [apply swf_sdiag | apply swf_smap; exact W | rewrite sdiag_ncol; unfold sneg; rewrite smap_ncol; lia].
+  - rewrite sadd_nrow; rewrite sdiag_nrow; [exact Hw | unfold sneg; rewrite smap_nrow; exact Hw].
+  - rewrite sadd_ncol, sdiag_ncol. exact Hw.
+  - rewrite dense_sadd by (rewrite sdiag_ncol; unfold sneg; rewrite smap_ncol; lia).
+    rewrite dense_sdiag, dense_sneg, msub_madd_mneg. apply madd_proper; [|reflexivity].
+    apply (meq_mget (s_nrow a) (s_nrow a)).
+    + rewrite <- Hw. apply diag_wf.
+    + pose proof (diag_wf (row_sums (dense a))) as WD. rewrite row_sums_length, dense_length in WD. exact WD.
+    + intros i j Hi Hj. rewrite !mget_diag by (rewrite ?row_sums_length, ?dense_length; lia).
+      destruct (Nat.eqb i j); [apply veq_nthq; exact Ew | reflexivity].
+Qed.
+
+Lemma laplacian_L_wf a reg : s_nrow a = s_ncol a ->
+  wf_mat (s_nrow a) (s_nrow a) (msub (diag (row_sums (regularized_dense a reg))) (regularized_dense a reg)).
+Proof.
+  intros Hsq. pose proof (regularized_wf a reg) as WR. rewrite <- Hsq in WR.
+  apply msub_wf; [|exact WR]. pose proof (diag_wf (row_sums (regularized_dense a reg))) as WD.
+  rewrite row_sums_length, (wf_mat_length _ _ _ WR) in WD. exact WD.
+Qed.
+
+Lemma lp_core a reg x : swf a -> s_nrow a = s_ncol a -> (0 < s_nrow a)%nat -> 0 <= reg -> length x = s_nrow a ->
+  let prod := smv (sadd (sdiag (smv a (vones (s_nrow a)))) (sneg a)) x in
+  (if Qlt_b 0 reg then vadd prod (vscale reg (map (fun q => q - vmean x) x)) else prod)
+  =v mat_vec (msub (diag (row_sums (regularized_dense a reg))) (regularized_dense a reg)) x.
+Proof.
+  intros W Hsq Hn Hreg Hx prod.
+  destruct (laplacian_sparse_wf a W Hsq) as (WL & HLr & HLc & EL).
+  pose proof (regularized_wf a reg) as WR. rewrite <- Hsq in WR.
+  set (R := regularized_dense a reg) in *. set (rs := row_sums R).
+  assert (Hrs : length rs = s_nrow a) by (unfold rs; rewrite row_sums_length; apply (wf_mat_length _ _ _ WR)).
+  assert (WDg : wf_mat (s_nrow a) (s_nrow a) (diag rs)) by (rewrite <- Hrs; apply diag_wf).
+  assert (E2 : mat_vec (msub (diag rs) R) x =v
+               vsub (vmul rs x) (vadd (mat_vec (dense a) x) (vconst (s_nrow a) (reg / qnat (s_ncol a) * sumq x)))).
+  { rewrite (mat_vec_msub (s_nrow a) (s_nrow a)) by assumption. rewrite mat_vec_diag by lia.
+    unfold R. rewrite mat_vec_regularized by lia. reflexivity. }
+  assert (WDa : wf_mat (s_nrow a) (s_nrow a) (diag (row_sums (dense a)))).
+  { pose proof (diag_wf (row_sums (dense a))) as WD. rewrite row_sums_length, dense_length in WD. exact WD. }
+  assert (WA : wf_mat (s_nrow a) (s_nrow a) (dense a)) by (rewrite Hsq at 2; apply dense_wf).
+  assert (E1 : prod =v vsub (vmul (row_sums (dense a)) x) (mat_vec (dense a) x)).
+  { unfold prod. rewrite smv_dense by (auto; lia). rewrite EL.
+    rewrite (mat_vec_msub (s_nrow a) (s_nrow a)) by assumption. rewrite mat_vec_diag by vlen. reflexivity. }
+  assert (HW : rs =v map (fun d => d + reg) (row_sums (dense a))) by (apply row_sums_regularized; lia).
+  rewrite E2. apply veq_nth.
+  - destruct (Qlt_b 0 reg); rewrite ?vadd_length, (veq_length _ _ E1); vlen.
+  - intros i Hi. assert (Hi' : (i < s_nrow a)%nat).
+    { destruct (Qlt_b 0 reg); rewrite ?vadd_length, (veq_length _ _ E1) in Hi; vlen. }
+    clear Hi. rewrite nthq_vsub by vlen. rewrite nthq_vmul by vlen. rewrite nthq_vadd by vlen. rewrite nthq_vconst by exact Hi'.
+    rewrite (veq_nthq _ _ i HW). rewrite nthq_map by vlen.
+    assert (EP : nthq prod i == nthq (row_sums (dense a)) i * nthq x i - nthq (mat_vec (dense a) x) i).
+    { rewrite (veq_nthq _ _ i E1). rewrite nthq_vsub by vlen. rewrite nthq_vmul by vlen. reflexivity. }
+    assert (HLp : length prod = s_nrow a) by (rewrite (veq_length _ _ E1); vlen).
+    destruct (Qlt_b 0 reg) eqn:Er.
+    + rewrite nthq_vadd by vlen. rewrite nthq_vscale by vlen. rewrite nthq_map by vlen.
+      rewrite EP, (vmean_def x (s_ncol a)) by lia. field. apply qnat_nonzero; lia.
+    + apply Qlt_b_false in Er. pose proof (Qle_antisym_0 reg Hreg Er) as E0. rewrite EP, E0. field. apply qnat_nonzero; lia.
+Qed.
+
+Lemma lp_norm_weights sqrtf a reg : Proper (Qeq ==> Qeq) sqrtf -> swf a -> s_nrow a = s_ncol a -> (0 < s_nrow a)%nat ->
+  map pinv (map (fun d => sqrtf (d + reg)) (smv a (vones (s_nrow a))))
+  =v map (fun d => pinv (sqrtf d)) (row_sums (regularized_dense a reg)).
+Proof.
+  intros Hs W Hsq Hn. rewrite map_map.
+  assert (HW : row_sums (regularized_dense a reg) =v map (fun d => d + reg) (smv a (vones (s_nrow a)))).
+  { rewrite Hsq. symmetry. apply mk_normalizer_weights; [exact W | lia]. }
+  apply veq_nth; [rewrite !map_length, (veq_length _ _ HW), map_length; reflexivity|].
+  intros i Hi. rewrite map_length in Hi.
+  rewrite nthq_map by exact Hi. rewrite nthq_map by (rewrite (veq_length _ _ HW), map_length; exact Hi).
+  rewrite (veq_nthq _ _ i HW). rewrite nthq_map by exact Hi. reflexivity.
+Qed.
+
+Theorem laplacian_matvec_denotes sqrtf a reg norm x :
+  Proper (Qeq ==> Qeq) sqrtf -> swf a -> s_nrow a = s_ncol a -> (0 < s_nrow a)%nat -> 0 <= reg -> length x = s_nrow a ->
+  lp_matvec (mk_laplacian sqrtf a reg norm) x =v mat_vec (laplacian_dense sqrtf a reg norm) x.
+Proof.
+  intros Hs W Hsq Hn Hreg Hx. unfold lp_matvec, mk_laplacian, laplacian_dense. destruct norm; simpl.
+  - set (s' := map (fun d => sqrtf (d + reg)) (smv a (vones (s_nrow a)))).
+    assert (Hs' : length s' = s_nrow a) by (unfold s'; vlen).
+    pose proof (lp_norm_weights sqrtf a reg Hs W Hsq Hn) as ES. fold s' in ES.
+    set (s := map (fun d => pinv (sqrtf d)) (row_sums (regularized_dense a reg))) in *.
+    set (x1 := smv (sdiag_pinv s') x).
+    assert (Ex1 : x1 =v vmul s x) by (unfold x1; rewrite smv_sdiag_pinv by lia; rewrite ES; reflexivity).
+    assert (Hx1 : length x1 = s_nrow a) by (unfold x1; rewrite smv_length, sdiag_pinv_nrow; exact Hs').
+    pose proof (lp_core a reg x1 W Hsq Hn Hreg Hx1) as HC. cbv zeta in HC.
+    set (core := if Qlt_b 0 reg then _ else _) in *.
+    rewrite mat_vec_row_scale, mat_vec_col_scale.
+    assert (Hcore : length core = s_nrow a).
+    { rewrite (veq_length _ _ HC), mat_vec_length. apply (wf_mat_length _ _ _ (laplacian_L_wf a reg Hsq)). }
+    rewrite smv_sdiag_pinv by lia. rewrite ES, HC, Ex1. reflexivity.
+  - apply lp_core; assumption.
+Qed.
+(** 2-D branch of Laplacian._matvec *)
+Lemma nth_msub A B i : (i < length A)%nat -> (i < length B)%nat -> nth i (msub A B) [] = vsub (nth i A []) (nth i B []).
+Proof. intros; unfold msub; apply nth_map2_mat; assumption. Qed.
+Lemma mat_mul_msub_l r q p A A' B : wf_mat r q A -> wf_mat r q A' -> wf_mat q p B ->
+  mat_mul p (msub A A') B =m msub (mat_mul p A B) (mat_mul p A' B).
+Proof.
+  intros WA WA' WB. pose proof (msub_wf _ _ _ _ WA WA') as WS.
+  pose proof (mat_mul_wf _ _ _ _ _ WA WB) as W1. pose proof (mat_mul_wf _ _ _ _ _ WA' WB) as W2.
+  apply (meq_mget r p); [eapply mat_mul_wf; eauto | apply msub_wf; assumption|].
+  intros i j Hi Hj. rewrite (mget_msub r p) by assumption. rewrite !(mget_mat_mul r q p) by assumption.
+  rewrite nth_msub by (rewrite ?(wf_mat_length _ _ _ WA), ?(wf_mat_length _ _ _ WA'); exact Hi).
+  apply dot_vsub_l. rewrite (wf_mat_row _ _ _ _ WA Hi), (wf_mat_row _ _ _ _ WA' Hi). reflexivity.
+Qed.
+Lemma col_row_scale r c d X j : length d = r -> wf_mat r c X -> (j < c)%nat -> col j (row_scale d X) =v vmul d (col j X).
+Proof.
+  intros Hd WX Hj. pose proof (row_scale_wf _ _ _ _ Hd WX) as WS.
+  apply veq_nth; [rewrite vmul_length, !col_length, (wf_mat_length _ _ _ WS), (wf_mat_length _ _ _ WX); lia|].
+  intros i Hi. rewrite col_length, (wf_mat_length _ _ _ WS) in Hi.
+  rewrite nthq_col by (rewrite (wf_mat_length _ _ _ WS); exact Hi).
+  rewrite nthq_vmul by (rewrite ?col_length, ?(wf_mat_length _ _ _ WX); lia).
+  rewrite nthq_col by (rewrite (wf_mat_length _ _ _ WX); exact Hi).
+  rewrite (mget_row_scale r c) by assumption. reflexivity.
+Qed.
+Lemma mat_mul_col_scale r q p M d X : wf_mat r q M -> length d = q -> wf_mat q p X ->
+  mat_mul p (col_scale M d) X =m mat_mul p M (row_scale d X).
+Proof.
+  intros WM Hd WX. pose proof (col_scale_wf _ _ _ _ Hd WM) as WC. pose proof (row_scale_wf _ _ _ _ Hd WX) as WR.
+  apply (meq_mget r p); [eapply mat_mul_wf; eauto | eapply mat_mul_wf; eauto|].
+  intros i j Hi Hj. rewrite !(mget_mat_mul r q p) by assumption.
+  rewrite (col_row_scale q p) by assumption.
+  unfold col_scale. rewrite (nth_map_gen (fun r0 => vmul r0 d) M [] []) by (rewrite (wf_mat_length _ _ _ WM); exact Hi).
+  apply dot_vmul_l.
+Qed.
+
+Lemma lp_core_mat k a reg X : swf a -> s_nrow a = s_ncol a -> (0 < s_nrow a)%nat -> 0 <= reg -> wf_mat (s_nrow a) k X ->
+  let prod := smm k (sadd (sdiag (smv a (vones (s_nrow a)))) (sneg a)) X in
+  (if Qlt_b 0 reg then madd prod (mscale reg (msub X (outer (vones (s_nrow a)) (col_means k X)))) else prod)
+  =m mat_mul k (msub (diag (row_sums (regularized_dense a reg))) (regularized_dense a reg)) X.
+Proof.
+  intros W Hsq Hn Hreg WX prod.
+  destruct (laplacian_sparse_wf a W Hsq) as (WL & HLr & HLc & EL).
+  pose proof (regularized_wf a reg) as WR. rewrite <- Hsq in WR. set (n := s_nrow a) in *.
+  set (R := regularized_dense a reg) in *. set (rs := row_sums R).
+  assert (Hrs : length rs = n) by (unfold rs; rewrite row_sums_length; apply (wf_mat_length _ _ _ WR)).
+  assert (WDg : wf_mat n n (diag rs)) by (rewrite <- Hrs; apply diag_wf).
+  assert (WA : wf_mat n n (dense a)) by (pose proof (dense_wf a) as WA0; rewrite <- Hsq in WA0; exact WA0).
+  assert (HrsA : length (row_sums (dense a)) = n) by (rewrite row_sums_length; apply dense_length).
+  assert (WDa : wf_mat n n (diag (row_sums (dense a)))) by (rewrite <- HrsA at 1 2; apply diag_wf).
+  assert (WAX : wf_mat n k (mat_mul k (dense a) X)) by (eapply mat_mul_wf; eauto).
+  assert (WX' : wf_mat (s_ncol a) k X) by (rewrite <- Hsq; exact WX).
+  assert (WO : wf_mat n k (outer (vones n) (vscale (reg / qnat (s_ncol a)) (col_sums k X)))) by (apply outer_wf'; vlen).
+  assert (WOm : wf_mat n k (outer (vones n) (col_means k X))) by (apply outer_wf'; vlen).
+  assert (E2 : mat_mul k (msub (diag rs) R) X =m
+               msub (row_scale rs X) (madd (mat_mul k (dense a) X) (outer (vones n) (vscale (reg / qnat (s_ncol a)) (col_sums k X))))).
+  { rewrite (mat_mul_msub_l n n k) by assumption. rewrite <- (row_scale_diag n k) by assumption.
+    unfold R. rewrite mat_mul_regularized by assumption. reflexivity. }
+  assert (E1 : prod =m msub (row_scale (row_sums (dense a)) X) (mat_mul k (dense a) X)).
+  { unfold prod. rewrite smm_dense by (auto; rewrite HLc; exact WX). rewrite EL.
+    rewrite (mat_mul_msub_l n n k) by assumption. rewrite <- (row_scale_diag n k) by assumption. reflexivity. }
+  assert (Wprod : wf_mat n k prod).
+  { eapply wf_mat_meq; [symmetry; exact E1|]. apply msub_wf; [apply row_scale_wf; assumption | exact WAX]. }
+  assert (HW : rs =v map (fun d => d + reg) (row_sums (dense a))) by (apply row_sums_regularized; lia).
+  rewrite E2. apply (meq_mget n k).
+  - destruct (Qlt_b 0 reg); [|exact Wprod]. apply madd_wf; [exact Wprod|]. apply mscale_wf. apply msub_wf; assumption.
+  - apply msub_wf; [apply row_scale_wf; assumption | apply madd_wf; assumption].
+  - intros i j Hi Hj.
+    rewrite (mget_msub n k) by (auto using row_scale_wf, madd_wf).
+    rewrite (mget_row_scale n k) by assumption. rewrite (mget_madd n k) by assumption.
+    rewrite mget_outer by vlen. rewrite nthq_vones by exact Hi. rewrite nthq_vscale by vlen.
+    unfold col_sums. rewrite nthq_seq_map by exact Hj.
+    rewrite (veq_nthq _ _ i HW). rewrite nthq_map by lia.
+    assert (EP : mget prod i j == nthq (row_sums (dense a)) i * mget X i j - mget (mat_mul k (dense a) X) i j).
+    { rewrite E1. rewrite (mget_msub n k) by (auto using row_scale_wf). rewrite (mget_row_scale n k) by assumption. reflexivity. }
+    destruct (Qlt_b 0 reg) eqn:Er.
+    + rewrite (mget_madd n k) by (auto using mscale_wf, msub_wf). rewrite (mget_mscale n k) by (auto using msub_wf).
+      rewrite (mget_msub n k) by assumption. rewrite mget_outer by vlen. rewrite nthq_vones by exact Hi.
+      unfold col_means. rewrite nthq_seq_map by exact Hj.
+      rewrite (vmean_def (col j X) (s_ncol a)) by (rewrite col_length, (wf_mat_length _ _ _ WX); exact Hsq).
+      rewrite EP. field. apply qnat_nonzero; lia.
+    + apply Qlt_b_false in Er. pose proof (Qle_antisym_0 reg Hreg Er) as E0. rewrite EP, E0. field. apply qnat_nonzero; lia.
+Qed.
+
+Theorem laplacian_matmat_denotes sqrtf k a reg norm X :
+  Proper (Qeq ==> Qeq) sqrtf -> swf a -> s_nrow a = s_ncol a -> (0 < s_nrow a)%nat -> 0 <= reg -> wf_mat (s_nrow a) k X ->
+  lp_matmat k (mk_laplacian sqrtf a reg norm) X =m mat_mul k (laplacian_dense sqrtf a reg norm) X.
+Proof.
+  intros Hs W Hsq Hn Hreg WX. unfold lp_matmat, mk_laplacian, laplacian_dense. destruct norm; simpl.
+  - set (s' := map (fun d => sqrtf (d + reg)) (smv a (vones (s_nrow a)))).
+    assert (Hs' : length s' = s_nrow a) by (unfold s'; vlen).
+    pose proof (lp_norm_weights sqrtf a reg Hs W Hsq Hn) as ES. fold s' in ES.
+    set (s := map (fun d => pinv (sqrtf d)) (row_sums (regularized_dense a reg))) in *.
+    assert (Hsl : length s = s_nrow a) by (rewrite <- (veq_length _ _ ES), map_length; exact Hs').
+    set (X1 := smm k (sdiag_pinv s') X).
+    assert (Ex1 : X1 =m row_scale s X).
+    { unfold X1. rewrite smm_sdiag_pinv by (rewrite Hs'; exact WX). rewrite ES. reflexivity. }
+    assert (WX1 : wf_mat (s_nrow a) k X1) by (eapply wf_mat_meq; [symmetry; exact Ex1 | apply row_scale_wf; assumption]).
+    pose proof (lp_core_mat k a reg X1 W Hsq Hn Hreg WX1) as HC. cbv zeta in HC.
+    set (core := if Qlt_b 0 reg then _ else _) in *.
+    pose proof (laplacian_L_wf a reg Hsq) as WLr.
+    assert (Wcore : wf_mat (s_nrow a) k core) by (eapply wf_mat_meq; [symmetry; exact HC | eapply mat_mul_wf; eauto]).
+    rewrite smm_sdiag_pinv by (rewrite Hs'; exact Wcore).
+    rewrite mat_mul_row_scale_l by apply (wf_mat_rows _ _ _ WX).
+    rewrite (mat_mul_col_scale (s_nrow a) (s_nrow a) k) by assumption.
+    rewrite ES, HC, Ex1. reflexivity.
+  - apply lp_core_mat; assumption.
+Qed.
+
+(** transposition: the Laplacian of a symmetric adjacency is symmetric, so returning self is right there *)
+Lemma laplacian_dense_wf sqrtf a reg norm : s_nrow a = s_ncol a ->
+  wf_mat (s_nrow a) (s_nrow a) (laplacian_dense sqrtf a reg norm).
+Proof.
+  intros Hsq. pose proof (laplacian_L_wf a reg Hsq) as WL. unfold laplacian_dense. destruct norm; [|exact WL].
+  pose proof (regularized_wf a reg) as WR.
+  assert (Hl : length (map (fun d => pinv (sqrtf d)) (row_sums (regularized_dense a reg))) = s_nrow a).
+  { rewrite map_length, row_sums_length. apply (wf_mat_length _ _ _ WR). }
+  apply row_scale_wf; [exact Hl|]. apply col_scale_wf; [exact Hl | exact WL].
+Qed.
+Theorem laplacian_symmetric sqrtf a reg norm : s_nrow a = s_ncol a -> msymmetric (s_nrow a) (dense a) ->
+  msymmetric (s_nrow a) (laplacian_dense sqrtf a reg norm).
+Proof.
+  intros Hsq HS.
+  pose proof (regularized_wf a reg) as WR. rewrite <- Hsq in WR.
+  pose proof (laplacian_L_wf a reg Hsq) as WL. set (n := s_nrow a) in *.
+  set (R := regularized_dense a reg) in *. set (rs := row_sums R).
+  assert (Hrs : length rs = n) by (unfold rs; rewrite row_sums_length; apply (wf_mat_length _ _ _ WR)).
+  assert (WDg : wf_mat n n (diag rs)) by (rewrite <- Hrs; apply diag_wf).
+  assert (SL : msymmetric n (msub (diag rs) R)).
+  { intros i j Hi Hj. rewrite !(mget_msub n n) by assumption. rewrite !mget_diag by lia.
+    unfold R. rewrite !mget_regularized by (fold n; lia). rewrite (HS i j Hi Hj).
+    destruct (Nat.eqb i j) eqn:E.
+    - apply Nat.eqb_eq in E. subst j. rewrite Nat.eqb_refl. reflexivity.
+    - rewrite Nat.eqb_sym, E. reflexivity. }
+  unfold laplacian_dense. fold R. fold rs. destruct norm; [|exact SL].
+  set (s := map (fun d => pinv (sqrtf d)) rs).
+  assert (Hsl : length s = n) by (unfold s; rewrite map_length; exact Hrs).
+  intros i j Hi Hj. rewrite !(mget_row_scale n n) by (auto using col_scale_wf).
+  rewrite !(mget_col_scale n n) by assumption. rewrite (SL i j Hi Hj). ring.
+Qed.
+Theorem laplacian_transpose_symmetric sqrtf a reg norm : s_nrow a = s_ncol a -> msymmetric (s_nrow a) (dense a) ->
+  transpose_n (s_nrow a) (laplacian_dense sqrtf a reg norm) =m laplacian_dense sqrtf a reg norm.
+Proof.
+  intros Hsq HS. apply transpose_symmetric; [apply laplacian_dense_wf; exact Hsq | apply laplacian_symmetric; assumption].
+Qed.
+
+(** Laplacian._transpose returns self: wrong for a directed graph *)
+Theorem laplacian_transpose_refuted :
+  exists a x, swf a /\ s_nrow a = s_ncol a /\ length x = s_nrow a /\
+    ~ (lp_matvec (lp_transpose (mk_laplacian (fun q => q) a 0 false)) x
+       =v mat_vec (transpose_n (s_nrow a) (laplacian_dense (fun q => q) a 0 false)) x).
+Proof.
+  exists {| s_ncol := 3; s_rows := [[(1%nat, 1)]; [(2%nat, 1)]; []] |}, [1; 2; 3].
+  split; [|split; [|split]].
+  - repeat constructor.
+  - reflexivity.
+  - reflexivity.
+  - intros H. apply (veq_nthq _ _ 0) in H. vm_compute in H. discriminate.
+Qed.
+
+(** expressions *)
+Fixpoint le_base (e : lp_expr) : smat * Q * bool :=
+  match e with LBase a reg norm => (a, reg, norm) | LT e | LAstype e => le_base e end.
+Lemma lp_eval_base sqrtf e : lp_eval sqrtf e = mk_laplacian sqrtf (fst (fst (le_base e))) (snd (fst (le_base e))) (snd (le_base e)).
+Proof. induction e; simpl; auto. Qed.
+Lemma le_n_base e : le_n e = s_nrow (fst (fst (le_base e))).
+Proof. induction e; simpl; auto. Qed.
+Lemma le_wf_base e : le_wf e ->
+  let a := fst (fst (le_base e)) in swf a /\ s_nrow a = s_ncol a /\ (0 < s_nrow a)%nat /\ 0 <= snd (fst (le_base e)).
+Proof. induction e; simpl; auto. Qed.
+Lemma le_base_sym_spec e : le_base_sym e <-> msymmetric (s_nrow (fst (fst (le_base e)))) (dense (fst (fst (le_base e)))).
+Proof. induction e; simpl; tauto. Qed.
+Lemma le_base_sym_implies e : le_base_sym e -> le_sym_or_untransposed e.
+Proof. induction e; simpl; auto. Qed.
+Lemma le_dense_base sqrtf e : le_wf e -> le_sym_or_untransposed e ->
+  le_dense sqrtf e =m laplacian_dense sqrtf (fst (fst (le_base e))) (snd (fst (le_base e))) (snd (le_base e)).
+Proof.
+  induction e as [a reg norm | e IH | e IH]; simpl; intros HW HS.
+  - reflexivity.
+  - rewrite IH by (auto using le_base_sym_implies). rewrite le_n_base.
+    destruct (le_wf_base e HW) as (_ & Hsq & _). apply laplacian_transpose_symmetric; [exact Hsq|].
+    apply le_base_sym_spec; exact HS.
+  - apply IH; assumption.
+Qed.
+
+Theorem laplacian_dot_denotes sqrtf e x : Proper (Qeq ==> Qeq) sqrtf -> le_wf e -> le_sym_or_untransposed e -> length x = le_n e ->
+  exists y, lo_dot (lp_n (lp_eval sqrtf e), lp_n (lp_eval sqrtf e)) (lp_matvec (lp_eval sqrtf e)) x = Ok y /\
+            y =v mat_vec (le_dense sqrtf e) x.
+Proof.
+  intros Hs HW HS Hx. rewrite lp_eval_base. destruct (le_wf_base e HW) as (W & Hsq & Hn & Hreg).
+  rewrite le_n_base in Hx. set (a := fst (fst (le_base e))) in *. set (reg := snd (fst (le_base e))) in *. set (norm := snd (le_base e)).
+  pose proof (laplacian_matvec_denotes sqrtf a reg norm x Hs W Hsq Hn Hreg Hx) as E.
+  exists (lp_matvec (mk_laplacian sqrtf a reg norm) x). split.
+  - apply lo_dot_ok; simpl; [exact Hx|]. rewrite (veq_length _ _ E), mat_vec_length.
+    apply (wf_mat_length _ _ _ (laplacian_dense_wf sqrtf a reg norm Hsq)).
+  - rewrite E. rewrite (le_dense_base sqrtf e HW HS). reflexivity.
+Qed.
+Theorem laplacian_expr_matmat_denotes sqrtf k e X : Proper (Qeq ==> Qeq) sqrtf -> le_wf e -> le_sym_or_untransposed e ->
+  wf_mat (le_n e) k X -> lp_matmat k (lp_eval sqrtf e) X =m mat_mul k (le_dense sqrtf e) X.
+Proof.
+  intros Hs HW HS WX. rewrite lp_eval_base. destruct (le_wf_base e HW) as (W & Hsq & Hn & Hreg). rewrite le_n_base in WX.
+  rewrite laplacian_matmat_denotes by assumption. rewrite (le_dense_base sqrtf e HW HS). reflexivity.
+Qed.
+(* ------------------------------------------------------------------------------------------- *)
+(** * CoNeighbor *)
+Global Instance map_pinv_instance : Proper (veq ==> veq) (map pinv).
+Proof. intros u v H. apply map_pinv_proper; exact H. Qed.
+Lemma sneg_nrow s : s_nrow (sneg s) = s_nrow s. Proof. apply smap_nrow. Qed.
+Lemma sscale_nrow c s : s_nrow (sscale c s) = s_nrow s. Proof. apply smap_nrow. Qed.
+Lemma sneg_ncol s : s_ncol (sneg s) = s_ncol s. Proof. reflexivity. Qed.
+Lemma sscale_ncol c s : s_ncol (sscale c s) = s_ncol s. Proof. reflexivity. Qed.
+Global Hint Rewrite smap_nrow smap_ncol sneg_nrow sneg_ncol sscale_nrow sscale_ncol stranspose_nrow stranspose_ncol
+  smul_nrow smul_ncol sdiag_nrow sdiag_ncol sdiag_pinv_nrow sdiag_pinv_ncol sadd_ncol : vlen.
+Definition cn_wfv (v : coneighbor) : Prop := swf (cn_back v) /\ swf (cn_fwd v) /\ s_ncol (cn_back v) = s_nrow (cn_fwd v).
+Definition cn_is (v : coneighbor) (r c : nat) (D : mat) : Prop :=
+  cn_wfv v /\ s_nrow (cn_back v) = r /\ s_ncol (cn_fwd v) = c /\ cn_dense v =m D.
+
+Lemma cn_dense_wf v : cn_wfv v -> wf_mat (s_nrow (cn_back v)) (s_ncol (cn_fwd v)) (cn_dense v).
+Proof.
+  intros (Wb & Wf & E). unfold cn_dense, cn_ncol. eapply mat_mul_wf; [apply dense_wf|]. rewrite E. apply dense_wf.
+Qed.
+Lemma cn_is_wf v r c D : cn_is v r c D -> wf_mat r c D.
+Proof. intros (Hv & <- & <- & E). eapply wf_mat_meq; [exact E | apply cn_dense_wf; exact Hv]. Qed.
+Lemma cn_is_meq v r c D D' : D =m D' -> cn_is v r c D -> cn_is v r c D'.
+Proof. intros E (Hv & Hr & Hc & E'). repeat split; auto; try apply Hv. rewrite E'. exact E. Qed.
+
+Theorem coneighbor_matvec_denotes v x : cn_wfv v -> length x = cn_ncol v -> cn_matvec v x =v mat_vec (cn_dense v) x.
+Proof.
+  intros (Wb & Wf & E) Hx. unfold cn_matvec, cn_dense, cn_ncol in *.
+  rewrite (smv_dense (cn_back v)) by (auto; vlen). rewrite (smv_dense (cn_fwd v)) by assumption.
+  symmetry. apply mat_vec_mat_mul. apply (wf_mat_rows _ _ _ (dense_wf (cn_fwd v))).
+Qed.
+Theorem coneighbor_matmat_denotes k v X : cn_wfv v -> wf_mat (cn_ncol v) k X -> cn_matmat k v X =m mat_mul k (cn_dense v) X.
+Proof.
+  intros (Wb & Wf & E) WX. unfold cn_matmat, cn_dense, cn_ncol in *.
+  pose proof (smm_wf k _ _ Wf WX) as W1. rewrite <- E in W1.
+  rewrite (smm_dense k (cn_back v)) by assumption. rewrite (smm_dense k (cn_fwd v)) by assumption.
+  symmetry. apply (mat_mul_assoc (s_nrow (cn_back v)) (s_ncol (cn_back v)) (s_ncol (cn_fwd v)) k); auto using dense_wf.
+  rewrite E. apply dense_wf.
+Qed.
+
+(** the base operator *)
+Lemma srow_dot_abs row x : Forall (fun e => 0 <= snd e) row ->
+  srow_dot (map (fun e => (fst e, Qabs (snd e))) row) x == srow_dot row x.
+Proof.
+  induction 1 as [|e row He H IH]; [reflexivity|]. unfold srow_dot in *. simpl. rewrite IH.
+  rewrite (Qabs_pos _ He). reflexivity.
+Qed.
+Lemma snorms1_nonneg s : swf s -> snonneg s -> snorms1 s =v row_sums (dense s).
+Proof.
+  intros W HN. rewrite <- (mat_vec_vones _ _ _ (dense_wf s)). rewrite <- smv_dense by (auto; vlen).
+  unfold snorms1, smv, smap; simpl. rewrite map_map. unfold snonneg in HN.
+  induction HN as [|row rows Hr HN IH]; simpl; constructor; auto. apply srow_dot_abs; exact Hr.
+Qed.
+Lemma tcol_values P j i rows : Forall (Forall (fun e : nat * Q => P (snd e))) rows -> Forall (fun e => P (snd e)) (tcol j i rows).
+Proof.
+  intros H. revert i; induction H as [|r rows Hr H IH]; intros i; simpl; [constructor|].
+  apply Forall_app; split; [|apply IH]. rewrite Forall_forall in *. intros e He. apply in_map_iff in He.
+  destruct He as [e' [<- He']]. simpl. apply filter_In in He'. apply Hr. apply He'.
+Qed.
+Lemma snonneg_stranspose s : snonneg s -> snonneg (stranspose s).
+Proof.
+  intros H. unfold snonneg, stranspose; simpl. rewrite Forall_forall. intros r Hr. apply in_map_iff in Hr.
+  destruct Hr as [j [<- _]]. apply (tcol_values (fun q => 0 <= q)). exact H.
+Qed.
+Lemma row_scale_vones r c M : wf_mat r c M -> row_scale (vones r) M =m M.
+Proof.
+  intros WM. apply (meq_mget r c); auto; [apply row_scale_wf; auto; vlen|].
+  intros i j Hi Hj. rewrite (mget_row_scale r c) by (auto; vlen). rewrite nthq_vones by exact Hi. ring.
+Qed.
+
+Theorem coneighbor_base_is a nrm : swf a -> snonneg a -> cn_is (mk_coneighbor a nrm) (s_nrow a) (s_nrow a) (coneighbor_dense a nrm).
+Proof.
+  intros W HN. pose proof (swf_stranspose a) as Wt. pose proof (dense_stranspose a) as Et.
+  assert (Hfw : swf (cn_fwd (mk_coneighbor a nrm)) /\ s_nrow (cn_fwd (mk_coneighbor a nrm)) = s_ncol a /\
+                s_ncol (cn_fwd (mk_coneighbor a nrm)) = s_nrow a /\
+                dense (cn_fwd (mk_coneighbor a nrm)) =m
+                row_scale (if nrm then map pinv (row_sums (transpose_n (s_ncol a) (dense a))) else vones (s_ncol a))
+                          (transpose_n (s_ncol a) (dense a))).
+  { unfold mk_coneighbor; simpl. destruct nrm.
+    - unfold snormalize. split; [apply swf_smul; exact Wt|]. split; [rewrite smul_nrow, sdiag_pinv_nrow; unfold snorms1; vlen|].
+      split; [reflexivity|].
+      rewrite dense_smul_sdiag_pinv by (unfold snorms1; vlen).
+      rewrite snorms1_nonneg by (auto using snonneg_stranspose). rewrite Et. reflexivity.
+    - split; [exact Wt|]. split; [apply stranspose_nrow|]. split; [reflexivity|].
+      rewrite Et. symmetry. apply (row_scale_vones (s_ncol a) (s_nrow a)). apply transpose_n_wf. apply dense_length. }
+  destruct Hfw as (Wf & Hfr & Hfc & Ef).
+  repeat split; simpl; auto.
+  unfold cn_dense, cn_ncol, coneighbor_dense. rewrite Hfc. simpl cn_back. rewrite Ef. reflexivity.
+Qed.
+
+(** the algebraic operations (each mutates the object; the value it then has is modelled here) *)
+Theorem cn_mul_is q v r c D : cn_is v r c D -> cn_is (cn_mul q v) r c (mscale q D).
+Proof.
+  intros ((Wb & Wf & E) & Hr & Hc & ED). unfold cn_is, cn_wfv, cn_dense, cn_ncol in *; simpl.
+  repeat split; auto.
+  - apply swf_smap; exact Wb.
+  - unfold sscale. rewrite smap_nrow. exact Hr.
+  - rewrite dense_sscale. rewrite mat_mul_mscale_l by apply (wf_mat_rows _ _ _ (dense_wf (cn_fwd v))). rewrite ED. reflexivity.
+Qed.
+Theorem cn_neg_is v r c D : cn_is v r c D -> cn_is (cn_neg v) r c (mneg D).
+Proof. intros H. eapply cn_is_meq; [symmetry; apply mneg_mscale|]. exact (cn_mul_is (-(1)) v r c D H). Qed.
+Theorem cn_left_is M v r c D : cn_is v r c D -> swf M -> s_ncol M = r ->
+  cn_is (cn_left M v) (s_nrow M) c (mat_mul c (dense M) D).
+Proof.
+  intros ((Wb & Wf & E) & Hr & Hc & ED) WM HM. unfold cn_is, cn_wfv, cn_dense, cn_ncol in *; simpl.
+  repeat split; auto.
+  - apply swf_smul; exact Wb.
+  - apply smul_nrow.
+  - rewrite dense_smul by (auto; lia).
+    assert (WB : wf_mat (s_ncol M) (s_ncol (cn_back v)) (dense (cn_back v))) by (rewrite HM, <- Hr; apply dense_wf).
+    assert (WF : wf_mat (s_ncol (cn_back v)) (s_ncol (cn_fwd v)) (dense (cn_fwd v))) by (rewrite E; apply dense_wf).
+    rewrite (mat_mul_assoc _ _ _ _ _ _ _ (dense_wf M) WB WF). rewrite ED, Hc. reflexivity.
+Qed.
+Theorem cn_right_is v M r c D : cn_is v r c D -> swf M -> s_nrow M = c ->
+  cn_is (cn_right v M) r (s_ncol M) (mat_mul (s_ncol M) D (dense M)).
+Proof.
+  intros ((Wb & Wf & E) & Hr & Hc & ED) WM HM. unfold cn_is, cn_wfv, cn_dense, cn_ncol in *; simpl.
+  repeat split; auto.
+  - apply swf_smul; exact WM.
+  - rewrite smul_nrow. exact E.
+  - rewrite dense_smul by (auto; lia).
+    assert (WF : wf_mat (s_ncol (cn_back v)) (s_ncol (cn_fwd v)) (dense (cn_fwd v))) by (rewrite E; apply dense_wf).
+    assert (WMm : wf_mat (s_ncol (cn_fwd v)) (s_ncol M) (dense M)) by (rewrite Hc, <- HM; apply dense_wf).
+    rewrite <- (mat_mul_assoc _ _ _ _ _ _ _ (dense_wf (cn_back v)) WF WMm). rewrite ED. reflexivity.
+Qed.
+Theorem cn_transpose_is v r c D : cn_is v r c D -> cn_is (cn_transpose v) c r (transpose_n c D).
+Proof.
+  intros ((Wb & Wf & E) & Hr & Hc & ED). unfold cn_is, cn_wfv, cn_dense, cn_ncol in *; simpl.
+  split; [split; [apply swf_stranspose | split; [apply swf_stranspose | rewrite ?stranspose_ncol, ?stranspose_nrow; symmetry; exact E]] |].
+  split; [rewrite ?stranspose_nrow; exact Hc|]. split; [rewrite ?stranspose_ncol; exact Hr |].
+  rewrite !dense_stranspose. rewrite <- ED, <- Hc. rewrite ?stranspose_ncol.
+  rewrite (transpose_mat_mul (s_nrow (cn_back v)) (s_ncol (cn_back v)) (s_ncol (cn_fwd v)))
+    by (auto using dense_wf; rewrite E; apply dense_wf).
+  rewrite E. reflexivity.
+Qed.
+
+Theorem ce_denotes e : ce_wf e -> cn_is (cn_eval e) (fst (ce_shape e)) (snd (ce_shape e)) (ce_dense e).
+Proof.
+  induction e as [a nrm | e IH | q e IH | M e IH | e IH M | e IH | e IH]; simpl; intros H.
+  - destruct H as [W HN]. apply coneighbor_base_is; assumption.
+  - apply cn_neg_is; auto.
+  - apply cn_mul_is; auto.
+  - destruct H as (H1 & W & E). apply (cn_left_is M _ (fst (ce_shape e))); auto.
+  - destruct H as (H1 & W & E). apply (cn_right_is _ M (fst (ce_shape e)) (snd (ce_shape e))); auto.
+  - apply cn_transpose_is; auto.
+  - apply IH; exact H.
+Qed.
+
+(** with square factors only, the recorded shape stays right *)
+Lemma ce_square_shape e : ce_wf e -> ce_square_factors e ->
+  exists n, ce_shape e = (n, n) /\ cn_shape (cn_eval e) = (n, n).
+Proof.
+  induction e as [a nrm | e IH | q e IH | M e IH | e IH M | e IH | e IH]; simpl; intros H HS.
+  - exists (s_nrow a). split; reflexivity.
+  - apply IH; assumption.
+  - apply IH; assumption.
+  - destruct H as (H1 & W & E). destruct HS as (HS & Hsq). destruct (IH H1 HS) as (n & E1 & E2).
+    exists n. rewrite E1 in *. simpl in *. split; [f_equal; lia | exact E2].
+  - destruct H as (H1 & W & E). destruct HS as (HS & Hsq). destruct (IH H1 HS) as (n & E1 & E2).
+    exists n. rewrite E1 in *. simpl in *. split; [f_equal; lia | exact E2].
+  - destruct (IH H HS) as (n & E1 & E2). exists n. rewrite E1. simpl. split; [reflexivity|].
+    destruct (ce_denotes e H) as (_ & Hr & _). rewrite E1 in Hr. simpl in Hr. rewrite Hr. reflexivity.
+  - apply IH; assumption.
+Qed.
+
+Theorem coneighbor_dot_denotes e x : ce_wf e -> ce_square_factors e -> length x = snd (ce_shape e) ->
+  exists y, cn_dot (cn_eval e) x = Ok y /\ y =v mat_vec (ce_dense e) x.
+Proof.
+  intros H HS Hx. destruct (ce_denotes e H) as (Hv & Hr & Hc & ED). destruct (ce_square_shape e H HS) as (n & E1 & E2).
+  rewrite E1 in *. simpl in *. exists (cn_matvec (cn_eval e) x). split.
+  - unfold cn_dot. rewrite Hc, Hx, Nat.eqb_refl. apply lo_dot_ok; rewrite E2; simpl; [exact Hx|].
+    unfold cn_matvec. rewrite smv_length. exact Hr.
+  - rewrite coneighbor_matvec_denotes by (auto; unfold cn_ncol; lia). rewrite ED. reflexivity.
+Qed.
+Theorem coneighbor_expr_matmat_denotes k e X : ce_wf e -> wf_mat (snd (ce_shape e)) k X ->
+  cn_matmat k (cn_eval e) X =m mat_mul k (ce_dense e) X.
+Proof.
+  intros H WX. destruct (ce_denotes e H) as (Hv & Hr & Hc & ED).
+  rewrite coneighbor_matmat_denotes by (auto; unfold cn_ncol; rewrite Hc; exact WX). rewrite ED. reflexivity.
+Qed.
+
+(** D26: left_sparse_dot with a 2 x 3 factor keeps shape (3, 3): the next dot raises *)
+Theorem coneighbor_sparse_dot_shape_refuted :
+  exists e x, ce_wf e /\ length x = snd (ce_shape e) /\ cn_dot (cn_eval e) x = Err.
+Proof.
+  exists (CLeft {| s_ncol := 3; s_rows := [[(0%nat, 1)]; [(1%nat, 1); (2%nat, 1)]] |}
+                (CBase {| s_ncol := 3; s_rows := [[(0%nat, 1); (2%nat, 1)]; [(1%nat, 1)]; [(0%nat, 1); (1%nat, 1)]] |} true)),
+         [1; 1; 1].
+  split; [|split].
+  - simpl. repeat split; repeat constructor; unfold Qle; simpl; lia.
+  - reflexivity.
+  - vm_compute. reflexivity.
+Qed.
+(* ------------------------------------------------------------------------------------------- *)
+(** * Polynome *)
+Lemma horner_single f c x : horner f [c] x = vscale c x.
+Proof. reflexivity. Qed.
+Lemma horner_cons f c cs x : cs <> [] -> horner f (c :: cs) x = vadd (f (horner f cs x)) (vscale c x).
+Proof.
+  intros H. unfold horner. simpl rev. destruct (rev cs) as [|cl rest] eqn:E.
+  - exfalso. apply H. rewrite <- (rev_involutive cs), E. reflexivity.
+  - simpl. rewrite fold_left_app. reflexivity.
+Qed.
+Lemma horner_mat_cons f c cs X : cs <> [] -> horner_mat f (c :: cs) X = madd (f (horner_mat f cs X)) (mscale c X).
+Proof.
+  intros H. unfold horner_mat. simpl rev. destruct (rev cs) as [|cl rest] eqn:E.
+  - exfalso. apply H. rewrite <- (rev_involutive cs), E. reflexivity.
+  - simpl. rewrite fold_left_app. reflexivity.
+Qed.
+
+Lemma mat_vec_vsum n A l : length A = n -> Forall (fun v => length v = n) l ->
+  mat_vec A (vsum n l) =v vsum n (map (mat_vec A) l).
+Proof.
+  intros HA H. induction H as [|v l Hv H IH]; simpl.
+  - rewrite mat_vec_vzero, HA. reflexivity.
+  - rewrite mat_vec_vadd by (rewrite vsum_length; auto). rewrite IH. reflexivity.
+Qed.
+Lemma vsum_map_shift {A} n (f : nat -> vec) (l : list A) (g : A -> nat) :
+  vsum n (map (fun a => f (g a)) l) = vsum n (map f (map g l)).
+Proof. rewrite map_map. reflexivity. Qed.
+
+Lemma power_sum_cons n A c cs x : wf_mat n n A -> length x = n ->
+  power_sum n A (c :: cs) x =v vadd (vscale c x) (mat_vec A (power_sum n A cs x)).
+Proof.
+  intros WA Hx. unfold power_sum. simpl length. rewrite <- cons_seq. simpl map. simpl vsum.
+  unfold nthq at 1. simpl nth. rewrite mat_vec_identity by exact Hx.
+  apply vadd_proper; [reflexivity|]. rewrite <- seq_shift, map_map.
+  rewrite mat_vec_vsum; [| apply (wf_mat_length _ _ _ WA) |].
+  - rewrite map_map. apply vsum_proper; [reflexivity|]. apply map_ext_meq. intros k _.
+    unfold nthq; simpl nth. fold (nthq cs k). simpl mat_pow. rewrite mat_vec_vscale.
+    rewrite mat_vec_mat_mul by apply (wf_mat_rows _ _ _ (mat_pow_wf n A k WA)). reflexivity.
+  - rewrite Forall_forall. intros v Hv. apply in_map_iff in Hv. destruct Hv as [k [<- _]].
+    rewrite vscale_length, mat_vec_length. apply (wf_mat_length _ _ _ (mat_pow_wf n A k WA)).
+Qed.
+Lemma power_sum_length n A cs x : wf_mat n n A -> length (power_sum n A cs x) = n.
+Proof.
+  intros WA. unfold power_sum. apply vsum_length. rewrite Forall_forall. intros v Hv. apply in_map_iff in Hv.
+  destruct Hv as [k [<- _]]. rewrite vscale_length, mat_vec_length. apply (wf_mat_length _ _ _ (mat_pow_wf n A k WA)).
+Qed.
+
+(** Horner's scheme as coded computes sum_k c_k A^k x (for any map f that applies A) *)
+Theorem horner_eq_power_sum n A f cs x : wf_mat n n A -> (forall y, length y = n -> f y =v mat_vec A y) ->
+  cs <> [] -> length x = n -> horner f cs x =v power_sum n A cs x.
+Proof.
+  intros WA Hf Hcs Hx. induction cs as [|c cs IH]; [contradiction|]. destruct cs as [|c' cs].
+  - rewrite horner_single. rewrite power_sum_cons by assumption. unfold power_sum at 1. simpl.
+    rewrite mat_vec_vzero, (wf_mat_length _ _ _ WA). symmetry. apply vadd_vzero_r. rewrite vscale_length; exact Hx.
+  - assert (Hne : c' :: cs <> []) by discriminate. specialize (IH Hne).
+    rewrite horner_cons by exact Hne. rewrite power_sum_cons by assumption.
+    rewrite Hf by (rewrite (veq_length _ _ IH); apply power_sum_length; exact WA).
+    rewrite IH. apply vadd_comm.
+Qed.
+
+Lemma msum_wf r c l : Forall (wf_mat r c) l -> wf_mat r c (msum r c l).
+Proof. induction 1 as [|M l HM H IH]; simpl; [apply mzero_wf | apply madd_wf; assumption]. Qed.
+Lemma mat_vec_msum r c l x : Forall (wf_mat r c) l -> mat_vec (msum r c l) x =v vsum r (map (fun M => mat_vec M x) l).
+Proof.
+  induction 1 as [|M l HM H IH]; simpl; [apply mat_vec_mzero|].
+  rewrite (mat_vec_madd r c) by (auto using msum_wf). rewrite IH. reflexivity.
+Qed.
+Lemma poly_terms_wf n A cs : wf_mat n n A ->
+  Forall (wf_mat n n) (map (fun k => mscale (nthq cs k) (mat_pow n A k)) (seq 0 (length cs))).
+Proof.
+  intros WA. rewrite Forall_forall. intros M HM. apply in_map_iff in HM. destruct HM as [k [<- _]].
+  apply mscale_wf, mat_pow_wf; exact WA.
+Qed.
+Lemma poly_dense_wf n A cs : wf_mat n n A -> wf_mat n n (poly_dense n A cs).
+Proof. intros WA. apply msum_wf, poly_terms_wf; exact WA. Qed.
+Theorem poly_dense_power_sum n A cs x : wf_mat n n A -> mat_vec (poly_dense n A cs) x =v power_sum n A cs x.
+Proof.
+  intros WA. unfold poly_dense, power_sum. rewrite mat_vec_msum by (apply poly_terms_wf; exact WA).
+  rewrite map_map. apply vsum_proper; [reflexivity|]. apply map_ext_meq. intros k _. apply mat_vec_mscale.
+Qed.
+Theorem polynome_matvec_denotes a cs x : swf a -> s_nrow a = s_ncol a -> cs <> [] -> length x = s_nrow a ->
+  pl_matvec {| pl_mat := a; pl_coeffs := cs |} x =v mat_vec (poly_dense (s_nrow a) (dense a) cs) x.
+Proof.
+  intros W Hsq Hcs Hx. assert (WA : wf_mat (s_nrow a) (s_nrow a) (dense a)) by (rewrite Hsq at 2; apply dense_wf).
+  unfold pl_matvec; simpl. rewrite poly_dense_power_sum by exact WA.
+  apply horner_eq_power_sum; auto. intros y Hy. apply smv_dense; [exact W | lia].
+Qed.
+
+(** 2-D *)
+Lemma mat_mul_msum r q p l X : Forall (wf_mat r q) l -> wf_mat q p X ->
+  mat_mul p (msum r q l) X =m msum r p (map (fun M => mat_mul p M X) l).
+Proof.
+  intros H WX. induction H as [|M l HM H IH]; simpl; [apply (mat_mul_mzero_l q); exact WX|].
+  rewrite (mat_mul_madd_l r q p) by (auto using msum_wf). rewrite IH. reflexivity.
+Qed.
+Lemma mat_mul_msum_r r q p A l : wf_mat r q A -> Forall (wf_mat q p) l ->
+  mat_mul p A (msum q p l) =m msum r p (map (mat_mul p A) l).
+Proof.
+  intros WA H. induction H as [|M l HM H IH]; simpl; [apply (mat_mul_mzero_r r q p); exact WA|].
+  rewrite (mat_mul_madd_r r q p) by (auto using msum_wf). rewrite IH. reflexivity.
+Qed.
+Global Instance msum_proper : Proper (eq ==> eq ==> Forall2 meq ==> meq) msum.
+Proof. intros r r' <- c c' <- l l' H. induction H; simpl; [reflexivity|]. apply madd_proper; assumption. Qed.
+Lemma map_ext_mlist {A} (f g : A -> mat) l : (forall a, In a l -> f a =m g a) -> Forall2 meq (map f l) (map g l).
+Proof.
+  induction l as [|a l IH]; intros H; simpl; constructor; [apply H; left; reflexivity|].
+  apply IH. intros b Hb. apply H; right; exact Hb.
+Qed.
+Lemma mat_mul_mscale_r r q p c A B : wf_mat r q A -> wf_mat q p B -> mat_mul p A (mscale c B) =m mscale c (mat_mul p A B).
+Proof.
+  intros WA WB. pose proof (mscale_wf _ _ c _ WB) as WS. pose proof (mat_mul_wf _ _ _ _ _ WA WB) as WAB.
+  apply (meq_mget r p); [eapply mat_mul_wf; eauto | apply mscale_wf; exact WAB|].
+  intros i j Hi Hj. rewrite (mget_mscale r p) by assumption. rewrite !(mget_mat_mul r q p) by assumption.
+  assert (E : col j (mscale c B) =v vscale c (col j B)).
+  { apply veq_nth; [rewrite vscale_length, !col_length, (wf_mat_length _ _ _ WS), (wf_mat_length _ _ _ WB); reflexivity|].
+    intros k Hk. rewrite col_length, (wf_mat_length _ _ _ WS) in Hk.
+    rewrite nthq_col by (rewrite (wf_mat_length _ _ _ WS); exact Hk).
+    rewrite nthq_vscale by (rewrite col_length, (wf_mat_length _ _ _ WB); exact Hk).
+    rewrite nthq_col by (rewrite (wf_mat_length _ _ _ WB); exact Hk). rewrite (mget_mscale q p) by assumption. reflexivity. }
+  rewrite E. apply dot_vscale_r.
+Qed.
+Definition power_sum_mat (n k : nat) (A : mat) (cs : list Q) (X : mat) : mat :=
+  msum n k (map (fun i => mscale (nthq cs i) (mat_mul k (mat_pow n A i) X)) (seq 0 (length cs))).
+Lemma power_sum_mat_terms_wf n k A cs X : wf_mat n n A -> wf_mat n k X ->
+  Forall (wf_mat n k) (map (fun i => mscale (nthq cs i) (mat_mul k (mat_pow n A i) X)) (seq 0 (length cs))).
+Proof.
+  intros WA WX. rewrite Forall_forall. intros M HM. apply in_map_iff in HM. destruct HM as [i [<- _]].
+  apply mscale_wf. eapply mat_mul_wf; [apply mat_pow_wf; exact WA | exact WX].
+Qed.
+Lemma power_sum_mat_wf n k A cs X : wf_mat n n A -> wf_mat n k X -> wf_mat n k (power_sum_mat n k A cs X).
+Proof. intros WA WX. apply msum_wf, power_sum_mat_terms_wf; assumption. Qed.
+Lemma power_sum_mat_cons n k A c cs X : wf_mat n n A -> wf_mat n k X ->
+  power_sum_mat n k A (c :: cs) X =m madd (mscale c X) (mat_mul k A (power_sum_mat n k A cs X)).
+Proof.
+  intros WA WX. unfold power_sum_mat. simpl length. rewrite <- cons_seq. simpl map. simpl msum.
+  unfold nthq at 1. simpl nth. rewrite (mat_mul_identity_l n k) by exact WX.
+  apply madd_proper; [reflexivity|]. rewrite <- seq_shift, map_map.
+  rewrite (mat_mul_msum_r n n k) by (auto using power_sum_mat_terms_wf).
+  rewrite map_map. apply msum_proper; auto. apply map_ext_mlist. intros i _.
+  unfold nthq; simpl nth. fold (nthq cs i). simpl mat_pow.
+  pose proof (mat_pow_wf n A i WA) as WP.
+  rewrite (mat_mul_mscale_r n n k) by (auto; eapply mat_mul_wf; eauto).
+  rewrite (mat_mul_assoc n n n k) by assumption. reflexivity.
+Qed.
+Theorem horner_mat_eq_power_sum n k A f cs X : wf_mat n n A -> (forall Y, wf_mat n k Y -> f Y =m mat_mul k A Y) ->
+  cs <> [] -> wf_mat n k X -> horner_mat f cs X =m power_sum_mat n k A cs X.
+Proof.
+  intros WA Hf Hcs WX. induction cs as [|c cs IH]; [contradiction|]. destruct cs as [|c' cs].
+  - unfold horner_mat; simpl. rewrite power_sum_mat_cons by assumption. unfold power_sum_mat at 1. simpl.
+    rewrite (mat_mul_mzero_r n n k) by exact WA. symmetry. apply madd_mzero_r. apply mscale_wf; exact WX.
+  - assert (Hne : c' :: cs <> []) by discriminate. specialize (IH Hne).
+    rewrite horner_mat_cons by exact Hne. rewrite power_sum_mat_cons by assumption.
+    rewrite Hf by (eapply wf_mat_meq; [symmetry; exact IH | apply power_sum_mat_wf; assumption]).
+    rewrite IH. apply madd_comm.
+Qed.
+Theorem polynome_matmat_denotes k a cs X : swf a -> s_nrow a = s_ncol a -> cs <> [] -> wf_mat (s_nrow a) k X ->
+  pl_matmat k {| pl_mat := a; pl_coeffs := cs |} X =m mat_mul k (poly_dense (s_nrow a) (dense a) cs) X.
+Proof.
+  intros W Hsq Hcs WX. assert (WA : wf_mat (s_nrow a) (s_nrow a) (dense a)) by (rewrite Hsq at 2; apply dense_wf).
+  unfold pl_matmat; simpl. unfold poly_dense.
+  rewrite (mat_mul_msum (s_nrow a) (s_nrow a) k) by (auto using poly_terms_wf). rewrite map_map.
+  rewrite (horner_mat_eq_power_sum (s_nrow a) k (dense a)); auto.
+  - unfold power_sum_mat. apply msum_proper; auto. apply map_ext_mlist. intros i _. symmetry.
+    apply mat_mul_mscale_l. apply (wf_mat_rows _ _ _ WX).
+  - intros Y WY. apply smm_dense; [exact W | rewrite <- Hsq; exact WY].
+Qed.
+(** algebraic operations of Polynome *)
+Lemma mscale_mscale c d A : mscale c (mscale d A) =m mscale (c * d) A.
+Proof. induction A as [|a A IH]; simpl; constructor; auto. apply vscale_vscale. Qed.
+Lemma msum_mscale r c q l : mscale q (msum r c l) =m msum r c (map (mscale q) l).
+Proof. induction l as [|M l IH]; simpl; [apply mscale_mzero|]. rewrite mscale_madd, IH. reflexivity. Qed.
+Lemma poly_dense_map_lin n A h q cs : (forall x, h x == q * x) ->
+  poly_dense n A (map h cs) =m mscale q (poly_dense n A cs).
+Proof.
+  intros Hh. unfold poly_dense. rewrite msum_mscale, map_map, map_length.
+  apply msum_proper; auto. apply map_ext_mlist. intros k Hk. apply in_seq in Hk.
+  rewrite nthq_map by lia. rewrite mscale_mscale. apply mscale_proper; [apply Hh | reflexivity].
+Qed.
+
+Lemma col_identity n j : (j < n)%nat -> col j (identity n) =v unit n j.
+Proof.
+  intros Hj. apply veq_nth; [rewrite col_length, unit_length; unfold identity; vlen|].
+  intros i Hi. rewrite col_length in Hi. unfold identity in Hi. rewrite map_length, seq_length in Hi.
+  rewrite nthq_col by (unfold identity; vlen). rewrite mget_identity by assumption. rewrite nthq_unit by exact Hi.
+  rewrite Nat.eqb_sym. reflexivity.
+Qed.
+Lemma mat_mul_identity_r r n A : wf_mat r n A -> mat_mul n A (identity n) =m A.
+Proof.
+  intros WA. apply (meq_mget r n); auto; [eapply mat_mul_wf; [exact WA | apply identity_wf]|].
+  intros i j Hi Hj. rewrite (mget_mat_mul r n n) by (auto using identity_wf).
+  rewrite col_identity by exact Hj. rewrite dot_comm. rewrite dot_unit_l by (auto; apply (wf_mat_row _ _ _ _ WA Hi)).
+  reflexivity.
+Qed.
+Lemma mat_pow_comm n B k : wf_mat n n B -> mat_mul n (mat_pow n B k) B =m mat_mul n B (mat_pow n B k).
+Proof.
+  intros WB. induction k as [|k IH]; simpl.
+  - rewrite (mat_mul_identity_l n n) by exact WB. rewrite (mat_mul_identity_r n n) by exact WB. reflexivity.
+  - pose proof (mat_pow_wf n B k WB) as WP. rewrite (mat_mul_assoc n n n n) by assumption. rewrite IH. reflexivity.
+Qed.
+Global Instance mat_pow_proper : Proper (eq ==> meq ==> eq ==> meq) mat_pow.
+Proof.
+  intros n n' <- A A' HA k k' <-. induction k as [|k IH]; simpl; [reflexivity|]. apply mat_mul_proper; auto.
+Qed.
+Lemma mat_pow_transpose n A k : wf_mat n n A -> transpose_n n (mat_pow n A k) =m mat_pow n (transpose_n n A) k.
+Proof.
+  intros WA. pose proof (transpose_n_wf n n A (wf_mat_length _ _ _ WA)) as WT. induction k as [|k IH]; simpl.
+  - apply transpose_identity.
+  - rewrite (transpose_mat_mul n n n) by (auto using mat_pow_wf). rewrite IH. apply mat_pow_comm; exact WT.
+Qed.
+Lemma transpose_msum r c l : Forall (wf_mat r c) l -> transpose_n c (msum r c l) =m msum c r (map (transpose_n c) l).
+Proof.
+  induction 1 as [|M l HM H IH]; simpl; [apply transpose_mzero|].
+  rewrite (transpose_madd r c) by (auto using msum_wf). rewrite IH. reflexivity.
+Qed.
+Lemma poly_dense_transpose n A cs : wf_mat n n A -> poly_dense n (transpose_n n A) cs =m transpose_n n (poly_dense n A cs).
+Proof.
+  intros WA. unfold poly_dense. rewrite (transpose_msum n n) by (apply poly_terms_wf; exact WA). rewrite map_map.
+  apply msum_proper; auto. apply map_ext_mlist. intros k _.
+  rewrite (transpose_mscale n n) by (apply mat_pow_wf; exact WA). rewrite mat_pow_transpose by exact WA. reflexivity.
+Qed.
+Global Instance poly_dense_proper : Proper (eq ==> meq ==> eq ==> meq) poly_dense.
+Proof.
+  intros n n' <- A A' HA cs cs' <-. unfold poly_dense. apply msum_proper; auto. apply map_ext_mlist. intros k _.
+  rewrite HA. reflexivity.
+Qed.
+
+Theorem pe_denotes e : pe_wf e ->
+  let v := pl_eval e in
+  swf (pl_mat v) /\ s_nrow (pl_mat v) = s_ncol (pl_mat v) /\ s_nrow (pl_mat v) = pe_n e /\ pl_coeffs v <> [] /\
+  poly_dense (pe_n e) (dense (pl_mat v)) (pl_coeffs v) =m pe_dense e.
+Proof.
+  induction e as [a cs | e IH | q e IH | e IH]; simpl; intros H.
+  - destruct H as (W & Hsq & Hcs). repeat split; auto. reflexivity.
+  - destruct (IH H) as (W & Hsq & Hn & Hcs & E). repeat split; auto.
+    + intros Hm. apply Hcs. destruct (pl_coeffs (pl_eval e)); [reflexivity | discriminate].
+    + rewrite (poly_dense_map_lin _ _ Qopp (-(1))) by (intros; ring). rewrite E. symmetry. apply mneg_mscale.
+  - destruct (IH H) as (W & Hsq & Hn & Hcs & E). repeat split; auto.
+    + intros Hm. apply Hcs. destruct (pl_coeffs (pl_eval e)); [reflexivity | discriminate].
+    + rewrite (poly_dense_map_lin _ _ (Qmult q) q) by (intros; reflexivity). rewrite E. reflexivity.
+  - destruct (IH H) as (W & Hsq & Hn & Hcs & E). split; [apply swf_stranspose|].
+    split; [rewrite ?stranspose_nrow, ?stranspose_ncol; symmetry; exact Hsq|].
+    split; [rewrite ?stranspose_nrow; lia|]. split; [exact Hcs|].
+    rewrite dense_stranspose. rewrite <- Hsq, Hn. rewrite poly_dense_transpose by (rewrite <- Hn; rewrite Hsq at 2; apply dense_wf).
+    rewrite E. reflexivity.
+Qed.
+
+Theorem polynome_dot_denotes e x : pe_wf e -> length x = pe_n e ->
+  exists y, lo_dot (s_nrow (pl_mat (pl_eval e)), s_ncol (pl_mat (pl_eval e))) (pl_matvec (pl_eval e)) x = Ok y /\
+            y =v mat_vec (pe_dense e) x.
+Proof.
+  intros H Hx. destruct (pe_denotes e H) as (W & Hsq & Hn & Hcs & E). cbv zeta in *.
+  destruct (pl_eval e) as [a cs] eqn:Ev. simpl in *.
+  assert (Hx' : length x = s_nrow a) by lia.
+  pose proof (polynome_matvec_denotes a cs x W Hsq Hcs Hx') as EM.
+  assert (WA : wf_mat (s_nrow a) (s_nrow a) (dense a)) by (pose proof (dense_wf a) as WA0; rewrite <- Hsq in WA0; exact WA0).
+  exists (pl_matvec {| pl_mat := a; pl_coeffs := cs |} x). split.
+  - apply lo_dot_ok; simpl; [lia|]. rewrite (veq_length _ _ EM), mat_vec_length.
+    apply (wf_mat_length _ _ _ (poly_dense_wf _ _ cs WA)).
+  - rewrite EM, Hn, E. reflexivity.
+Qed.
+Theorem polynome_expr_matmat_denotes k e X : pe_wf e -> wf_mat (pe_n e) k X ->
+  pl_matmat k (pl_eval e) X =m mat_mul k (pe_dense e) X.
+Proof.
+  intros H WX. destruct (pe_denotes e H) as (W & Hsq & Hn & Hcs & E). cbv zeta in *.
+  destruct (pl_eval e) as [a cs] eqn:Ev. simpl in *.
+  rewrite polynome_matmat_denotes by (auto; rewrite Hn; exact WX). rewrite Hn, E. reflexivity.
+Qed.
+
+(* ------------------------------------------------------------------------------------------- *)
+(** * All operators *)
+Theorem operator_denotes sqrtf o x : Proper (Qeq ==> Qeq) sqrtf -> op_wf o -> op_sound_site o -> length x = snd (op_shape o) ->
+  exists y, op_apply sqrtf o x = Ok y /\ y =v mat_vec (op_dense sqrtf o) x.
+Proof.
+  intros Hs. destruct o as [e | e | e | e | e]; simpl; intros HW HS Hx.
+  - apply sparselr_dot_denotes; assumption.
+  - apply normalizer_dot_denotes; assumption.
+  - apply laplacian_dot_denotes; assumption.
+  - apply coneighbor_dot_denotes; assumption.
+  - apply polynome_dot_denotes; assumption.
+Qed.
+Theorem operator_matmat_denotes sqrtf k o X : Proper (Qeq ==> Qeq) sqrtf -> op_wf o -> op_sound_site o ->
+  wf_mat (snd (op_shape o)) k X -> op_apply_mat sqrtf k o X =m mat_mul k (op_dense sqrtf o) X.
+Proof.
+  intros Hs. destruct o as [e | e | e | e | e]; simpl; intros HW HS WX.
+  - apply sparselr_matmat_denotes; assumption.
+  - destruct e as [a reg | e]; simpl in *; [|discriminate]. destruct HW as (W & Hc & Hreg).
+    apply normalizer_matmat_denotes; assumption.
+  - apply laplacian_expr_matmat_denotes; assumption.
+  - apply coneighbor_expr_matmat_denotes; assumption.
+  - apply polynome_expr_matmat_denotes; assumption.
+Qed.
